@@ -603,279 +603,357 @@ def gen_EngineCpp(repo):
 
 
 # =============================================================================================
-# Python kinetics / marshalling (C01, C03, C04): neighbour enumeration, wrap lines, chemostat lookup,
-# rate / diffusion formulas (normalised text), rate-constant dimensions, marshalling subscripts and loop orders
+# G3 : dictionary readers / writers / constructors (key tables of every *_from_dict / *_to_dict)
 # =============================================================================================
-def _norm(src, node):
-    return re.sub(r"\s+", "", src.seg(node))
+_DK_CLASSES = [
+    # (name, module, reader, writer, constructor class (module, class) or None)
+    ("species", "rdnetwork.py", "species_from_dict", "species_to_dict", ("rdnetwork.py", "Species")),
+    ("reaction", "rdnetwork.py", "reaction_from_dict", "reaction_to_dict", ("rdnetwork.py", "Reaction")),
+    ("network", "rdnetwork.py", "rdnetwork_from_dict", "rdnetwork_to_dict", ("rdnetwork.py", "RDNetwork")),
+    ("grid", "rdgridspace.py", "rdgridspace_from_dict", "rdgridspace_to_dict", ("rdgridspace.py", "RDGridSpace")),
+    ("node", "rdgraphspace.py", "rdgraphspacenode_from_dict", "rdgraphspacenode_to_dict", ("rdgraphspace.py", "RDGraphSpaceNode")),
+    ("edge", "rdgraphspace.py", "rdgraphspaceedge_from_dict", "rdgraphspaceedge_to_dict", ("rdgraphspace.py", "RDGraphSpaceEdge")),
+    ("graph", "rdgraphspace.py", "rdgraphspace_from_dict", "rdgraphspace_to_dict", ("rdgraphspace.py", "RDGraphSpace")),
+    ("system", "rdsystem.py", "rdsystem_from_dict", "rdsystem_to_dict", ("rdsystem.py", "RDSystem")),
+    ("script", "rdscript.py", "rdscript_from_dict", "rdscript_to_dict", ("rdscript.py", "RDScript")),
+    ("unitsSystem", "units.py", "unitssystem_from_dict", "unitssystem_to_dict", ("units.py", "UnitsSystem")),
+    ("unitArray", "units.py", "unitarray_from_dict", "unitarray_to_dict", None),
+    ("trajectory", "rdoutput.py", "load_rdtrajectory", "save_rdtrajectory", ("rdoutput.py", "RDTrajectory")),
+]
 
 
-def _stmts(fn):
-    """all statements of a function, depth first, in source order"""
-    out = []
-
-    def rec(body):
-        for st in body:
-            out.append(st)
-            for fld in ("body", "orelse", "finalbody"):
-                sub = getattr(st, fld, None)
-                if isinstance(sub, list):
-                    rec(sub)
-    rec(fn.body)
-    return out
+def _dk_is_d_sub(n):
+    """`d["k"]` -> k"""
+    if isinstance(n, ast.Subscript) and isinstance(n.value, ast.Name) and n.value.id == "d" \
+            and isinstance(n.slice, ast.Constant) and isinstance(n.slice.value, str):
+        return n.slice.value
+    return None
 
 
-def _stmt_texts(src, fn, keep):
-    """normalised source text of the simple statements (Assign/AugAssign/Return/Expr) of fn selected by keep(text)"""
-    res = []
-    for st in _stmts(fn):
-        if isinstance(st, (ast.Assign, ast.AugAssign, ast.Return, ast.Expr)):
-            if isinstance(st, ast.Expr) and isinstance(st.value, ast.Constant) and isinstance(st.value.value, str):
-                continue   # docstring
-            t = _norm(src, st)
-            if keep(t):
-                res.append(t)
-    return res
+def _dk_is_d_get(n):
+    """`d.get("k", default)` -> k"""
+    if isinstance(n, ast.Call) and isinstance(n.func, ast.Attribute) and n.func.attr == "get" \
+            and isinstance(n.func.value, ast.Name) and n.func.value.id == "d" and n.args \
+            and isinstance(n.args[0], ast.Constant) and isinstance(n.args[0].value, str):
+        return n.args[0].value
+    return None
 
 
-def _need(lst, what, n=None):
-    if not lst or (n is not None and len(lst) != n):
-        raise AnchorLost("%s (found %d)" % (what, len(lst)))
-    return lst
+def _dk_guard_key(test):
+    """`"k" in d` -> k ;  `"k" in d and d["k"] is not None` -> k (the caller records that None counts as omitted)"""
+    if isinstance(test, ast.BoolOp) and isinstance(test.op, ast.And) and len(test.values) == 2:
+        k = _dk_guard_key(test.values[0])
+        t = test.values[1]
+        if k is not None and isinstance(t, ast.Compare) and len(t.ops) == 1 and isinstance(t.ops[0], ast.IsNot) \
+                and _dk_is_d_sub(t.left) == k and isinstance(t.comparators[0], ast.Constant) and t.comparators[0].value is None:
+            return k
+        return None
+    if isinstance(test, ast.Compare) and len(test.ops) == 1 and isinstance(test.ops[0], ast.In) \
+            and isinstance(test.left, ast.Constant) and isinstance(test.left.value, str) \
+            and isinstance(test.comparators[0], ast.Name) and test.comparators[0].id == "d":
+        return test.left.value
+    return None
+
+
+def _dk_reader(src, fn):
+    aliases = None
+    for n in ast.walk(fn):
+        if isinstance(n, ast.Call) and isinstance(n.func, ast.Attribute) and n.func.attr == "process_input_dict_keys":
+            if len(n.args) < 2 or not isinstance(n.args[1], ast.List):
+                raise AnchorLost("%s:%s process_input_dict_keys synonyms literal" % (src.rel, fn.name))
+            aliases = [str_list(g) for g in n.args[1].elts]
+            extra = [k.arg for k in n.keywords] + (["policy"] if len(n.args) > 2 else [])
+            if extra:
+                raise AnchorLost("%s:%s process_input_dict_keys called with a policy" % (src.rel, fn.name))
+    wiring, mandatory, optional_get, units_default = [], [], [], None
+    none_as_omitted, reader_default = [], []
+    varkeys = {}
+    # the dictionary of constructor arguments: the name splatted into a call (`Cls(**da)`), whatever it is called
+    kw_name = "da"
+    for n in ast.walk(fn):
+        if isinstance(n, ast.Call):
+            for kw in n.keywords:
+                if kw.arg is None and isinstance(kw.value, ast.Name) and kw.value.id != "d":
+                    kw_name = kw.value.id
+
+    def keys_of(expr):
+        ks = []
+        for n in ast.walk(expr):
+            k = _dk_is_d_sub(n)
+            if k is None:
+                k = _dk_is_d_get(n)
+            if k is not None and k not in ks:
+                ks.append(k)
+        return ks
+
+    def retrieve_default(expr):
+        for n in ast.walk(expr):
+            if isinstance(n, ast.Call) and getattr(n.func, "attr", getattr(n.func, "id", "")) == "retrive_units_system_from_dict":
+                for kw in n.keywords:
+                    if kw.arg == "default":
+                        return const_str(kw.value)
+                if len(n.args) >= 2:
+                    return const_str(n.args[1])
+                raise AnchorLost("%s:%s retrive_units_system_from_dict default" % (src.rel, fn.name))
+        return None
+
+    def add_wire(k, p):
+        if (k, p) not in wiring:
+            wiring.append((k, p))
+
+    def visit(stmts, guards):
+        nonlocal units_default
+        for st in stmts:
+            if isinstance(st, ast.If):
+                gk = _dk_guard_key(st.test)
+                if gk is not None:
+                    if isinstance(st.test, ast.BoolOp) and gk not in none_as_omitted:
+                        none_as_omitted.append(gk)
+                    visit(st.body, guards + [gk])
+                    if any(isinstance(x, ast.Raise) for x in st.orelse):
+                        if gk not in mandatory:
+                            mandatory.append(gk)
+                    else:
+                        # an else branch that fills the constructor argument itself: the reader's own default
+                        for x in st.orelse:
+                            if isinstance(x, ast.Assign) and len(x.targets) == 1 and isinstance(x.targets[0], ast.Subscript) \
+                                    and isinstance(x.targets[0].value, ast.Name) and x.targets[0].value.id == kw_name:
+                                reader_default.append((gk, re.sub(r"\s+", "", src.seg(x.value))))
+                        visit(st.orelse, guards)
+                else:
+                    # unguarded subscripts in the test itself are mandatory reads
+                    for k in keys_of(st.test):
+                        if k not in guards and not any(_dk_is_d_get(n) == k for n in ast.walk(st.test)) and k not in mandatory:
+                            mandatory.append(k)
+                    visit(st.body, guards)
+                    visit(st.orelse, guards)
+                continue
+            if isinstance(st, (ast.For, ast.While, ast.With, ast.Try)):
+                visit(getattr(st, "body", []), guards)
+                continue
+            # mandatory: a plain d["k"] outside a guard for k (a `d.get("k", ..)` test in the same statement is a guard)
+            got = [_dk_is_d_get(n) for n in ast.walk(st)]
+            for n in ast.walk(st):
+                k = _dk_is_d_sub(n)
+                if k is not None and k not in guards and k not in got and k not in mandatory:
+                    mandatory.append(k)
+                k = _dk_is_d_get(n)
+                if k is not None and k not in optional_get:
+                    optional_get.append(k)
+            if isinstance(st, ast.Assign) and len(st.targets) == 1:
+                tgt = st.targets[0]
+                ud = retrieve_default(st.value)
+                ks = keys_of(st.value)
+                for n in ast.walk(st.value):
+                    if isinstance(n, ast.Name) and n.id in varkeys:
+                        for k in varkeys[n.id]:
+                            if k not in ks:
+                                ks.append(k)
+                if isinstance(tgt, ast.Name) and tgt.id != "d":
+                    if ud is not None:
+                        ks = ks + ["units"]
+                    if ks:
+                        varkeys[tgt.id] = ks
+                    elif guards and tgt.id in varkeys:
+                        pass
+                elif isinstance(tgt, ast.Subscript) and isinstance(tgt.value, ast.Name) and tgt.value.id == kw_name \
+                        and isinstance(tgt.slice, ast.Constant):
+                    p = tgt.slice.value
+                    if ud is not None:
+                        units_default = ud
+                        add_wire("units", p)
+                    else:
+                        if guards:
+                            add_wire(guards[-1], p)
+                        else:
+                            for k in ks:
+                                add_wire(k, p)
+            if isinstance(st, ast.Return) and st.value is not None:
+                v = st.value
+                if isinstance(v, ast.Call):
+                    if any(kw.arg is None and isinstance(kw.value, ast.Name) and kw.value.id == "d" for kw in v.keywords):
+                        for g in (aliases or []):          # Cls(**d): every canonical key is its own parameter
+                            add_wire(g[0], g[0])
+                    for kw in v.keywords:
+                        if kw.arg is None:
+                            continue
+                        ks = keys_of(kw.value)
+                        for n in ast.walk(kw.value):
+                            if isinstance(n, ast.Name) and n.id in varkeys:
+                                ks += [k for k in varkeys[n.id] if k not in ks]
+                        for k in ks:
+                            add_wire(k, kw.arg)
+
+    visit(fn.body, [])
+    return aliases, wiring, mandatory, optional_get, units_default, none_as_omitted, reader_default
+
+
+def _dk_writer(src, fn):
+    emitted, cond = [], []
+    lit = None
+    for n in ast.walk(fn):
+        if isinstance(n, ast.Assign) and len(n.targets) == 1 and isinstance(n.targets[0], ast.Name) \
+                and n.targets[0].id == "d" and isinstance(n.value, ast.Dict) and lit is None:
+            lit = n.value
+        if isinstance(n, ast.Return) and isinstance(n.value, ast.Dict) and lit is None:
+            lit = n.value
+    if lit is None:
+        raise AnchorLost("%s:%s dict literal" % (src.rel, fn.name))
+    for k in lit.keys:
+        emitted.append(const_str(k))
+
+    def visit(stmts, conditional):
+        for st in stmts:
+            if isinstance(st, ast.If):
+                # a key assigned in both branches of an if/else is unconditional
+                def assigned(body):
+                    out = []
+                    for s in body:
+                        if isinstance(s, ast.Assign) and len(s.targets) == 1:
+                            k = _dk_is_d_sub(s.targets[0])
+                            if k is not None:
+                                out.append(k)
+                    return out
+                a, b = assigned(st.body), assigned(st.orelse)
+                for k in a + b:
+                    if k in a and k in b and not conditional:
+                        if k not in emitted:
+                            emitted.append(k)
+                    elif k not in emitted and k not in cond:
+                        cond.append(k)
+                continue
+            if isinstance(st, ast.Assign) and len(st.targets) == 1:
+                k = _dk_is_d_sub(st.targets[0])
+                if k is not None:
+                    (cond if conditional else emitted).append(k) if k not in emitted + cond else None
+    visit(fn.body, False)
+    return emitted, cond
+
+
+def _dk_ctor(repo, mod, cls):
+    src = PySrc(repo, "src/strengths/" + mod)
+    init = src.func("__init__", cls)
+    a = init.args
+    if a.vararg or a.kwarg or a.kwonlyargs:
+        raise AnchorLost("%s:%s.__init__ signature shape" % (mod, cls))
+    names = [x.arg for x in a.args][1:]
+    defaults = [None] * (len(names) - len(a.defaults)) + [re.sub(r"\s+", "", src.seg(d)) for d in a.defaults]
+    return list(zip(names, defaults))
 
 
 @group
-def gen_KineticsPy(repo):
-    kin = PySrc(repo, "src/strengths/kinetics.py")
-    L = ["namespace Strengths.Gen\n"]
+def gen_DictKeys(repo):
+    def opt(s):
+        return "none" if s is None else "(some %s)" % lean_str(s)
 
-    def strs(l):
-        return lean_list([lean_str(x) for x in l])
+    L = ["namespace Strengths.Gen.DictKeys\n",
+         "/-- what the source says about one dictionary form: the synonym groups its reader accepts, how the\n"
+         "canonical keys are wired to constructor parameters, which keys the reader insists on, the default of the\n"
+         "`units` key, the keys its writer emits (always / under a condition) and the constructor signature -/",
+         "structure Table where",
+         "  name : String",
+         "  aliases : List (List String)",
+         "  wiring : List (String × String)",
+         "  mandatory : List String",
+         "  optionalGet : List String",
+         "  unitsDefault : Option String",
+         "  noneAsOmitted : List String",
+         "  readerDefault : List (String × String)",
+         "  emitted : List String",
+         "  emittedCond : List String",
+         "  ctor : List (String × Option String)",
+         "  deriving DecidableEq, Repr\n"]
+    srcs = {}
+    names = []
+    for name, mod, reader, writer, ctor in _DK_CLASSES:
+        if mod not in srcs:
+            srcs[mod] = PySrc(repo, "src/strengths/" + mod)
+        src = srcs[mod]
+        aliases, wiring, mandatory, optget, udef, none_om, rdef = _dk_reader(src, src.func(reader))
+        if aliases is None and name != "trajectory":
+            raise AnchorLost("%s:%s process_input_dict_keys call" % (mod, reader))
+        if name == "trajectory":
+            aliases = [[k] for k in mandatory + [k for k in optget if k not in mandatory]]
+        emitted, cond = _dk_writer(src, src.func(writer))
+        params = _dk_ctor(repo, *ctor) if ctor else []
+        if name == "unitArray":
+            # UnitArray(d["value"], d["units"]) : positional wiring onto the data parameters
+            wiring = [("value", "value"), ("units", "units")]
+            params = [(p, d) for p, d in _dk_ctor(repo, "units.py", "UnitArray") if p in ("value", "units")]
+        L.append("/-- `%s` / `%s`%s -/" % (reader, writer, (" / `%s.__init__`" % ctor[1]) if ctor else ""))
+        L.append("def %s : Table where" % name)
+        L.append("  name := %s" % lean_str(name))
+        L.append("  aliases := %s" % lean_list([lean_list([lean_str(k) for k in g]) for g in aliases]))
+        L.append("  wiring := %s" % lean_list(["(%s, %s)" % (lean_str(k), lean_str(p)) for k, p in wiring]))
+        L.append("  mandatory := %s" % lean_list([lean_str(k) for k in mandatory]))
+        L.append("  optionalGet := %s" % lean_list([lean_str(k) for k in optget]))
+        L.append("  unitsDefault := %s" % opt(udef))
+        L.append("  noneAsOmitted := %s" % lean_list([lean_str(k) for k in none_om]))
+        L.append("  readerDefault := %s" % lean_list(["(%s, %s)" % (lean_str(k), lean_str(v)) for k, v in rdef]))
+        L.append("  emitted := %s" % lean_list([lean_str(k) for k in emitted]))
+        L.append("  emittedCond := %s" % lean_list([lean_str(k) for k in cond]))
+        L.append("  ctor := %s\n" % lean_list(["(%s, %s)" % (lean_str(p), opt(d)) for p, d in params]))
+        names.append(name)
+    L.append("def all : List Table := %s\n" % lean_list(names))
 
-    # ---- _compute_dspeciesdt_grid : candidate list, wrap lines, bounds test, chemostat test, accumulation
-    g = kin.func("_compute_dspeciesdt_grid")
-    cand = None
-    for st in _stmts(g):
-        if isinstance(st, ast.For) and isinstance(st.iter, ast.List) and isinstance(st.target, ast.Name) and st.target.id == "c":
-            cand = st
-    if cand is None:
-        raise AnchorLost("kinetics.py:_compute_dspeciesdt_grid candidate loop `for c in [[...]...]`")
-    offs = []
-    for el in cand.iter.elts:
-        if not (isinstance(el, ast.List) and len(el.elts) == 3):
-            raise AnchorLost("kinetics.py:_compute_dspeciesdt_grid candidate triple")
-        tri = []
-        for k, comp in enumerate(el.elts):
-            t = _norm(kin, comp)
-            m = re.fullmatch(r"p\[(\d)\](?:([-+])(\d+))?", t)
-            if not m or int(m.group(1)) != k:
-                raise AnchorLost("kinetics.py:_compute_dspeciesdt_grid candidate component " + t)
-            tri.append(int((m.group(2) or "+") + (m.group(3) or "0")))
-        offs.append(tuple(tri))
-    L.append("/-- `_compute_dspeciesdt_grid`: the six candidate neighbours as coordinate offsets, in loop order -/")
-    L.append("def pyNbrOffsets : List (Int × Int × Int) := %s" %
-             lean_list(["((%d : Int), (%d : Int), (%d : Int))" % t for t in offs]))
-    wraps = {}
-    for st in cand.body:
-        if isinstance(st, ast.If) and isinstance(st.test, ast.BoolOp) and isinstance(st.test.op, ast.And) and len(st.test.values) == 2:
-            a, b = st.test.values
-            ta = _norm(kin, a)
-            m = re.fullmatch(r'system\.space\._boundary_conditions\["([xyz])"\]=="(\w+)"', ta)
-            if not m:
-                continue
-            ax = "xyz".index(m.group(1))
-            size = "system.space." + "whd"[ax]
-            if len(st.body) != 1 or not isinstance(st.body[0], ast.Assign) or _norm(kin, st.body[0].targets[0]) != "c[%d]" % ax:
-                raise AnchorLost("kinetics.py:_compute_dspeciesdt_grid wrap assignment of axis %d" % ax)
-            guard = ExprTr(kin, {size: "n"}).tr(b)
-            expr = ExprTr(kin, {size: "n", "c[%d]" % ax: "c"}).tr(st.body[0].value)
-            wraps[ax] = (m.group(2), guard, expr)
-    if sorted(wraps) != [0, 1, 2]:
-        raise AnchorLost("kinetics.py:_compute_dspeciesdt_grid wrap lines (three `if ... periodical and size > 1`)")
-    L.append("/-- boundary-condition string that enables wrapping, per axis -/")
-    L.append("def pyWrapMode : List String := %s" % strs([wraps[a][0] for a in range(3)]))
-    for a in range(3):
-        L.append("/-- wrap of axis %d: extra guard on the axis length `n`, and the new coordinate from `n` and candidate `c` -/" % a)
-        L.append("def pyWrapGuard%d (n : Int) : Bool := %s" % (a, wraps[a][1]))
-        L.append("def pyWrap%d (n c : Int) : Int := %s" % (a, wraps[a][2]))
-    inb = [st for st in cand.body if isinstance(st, ast.If) and _norm(kin, st.test) == "system.space.is_within_bounds(c)"]
-    _need(inb, "kinetics.py:_compute_dspeciesdt_grid `if system.space.is_within_bounds(c)`", 1)
-    L.append("def pyGridNbrBody : List String := %s" % strs([_norm(kin, s) for s in inb[0].body]))
-
-    def chem_test(fn):
-        for st in fn.body:
-            if isinstance(st, ast.If) and isinstance(st.test, ast.BoolOp) and isinstance(st.test.op, ast.And) \
-                    and _norm(kin, st.test.values[0]) == "apply_chemostats" and len(st.test.values) == 2:
-                return _norm(kin, st.test.values[1]), [_norm(kin, s) for s in st.body]
-        raise AnchorLost("kinetics.py:%s `if apply_chemostats and ...`" % fn.name)
-    gg = kin.func("_compute_dspeciesdt_graph")
-    ct_grid, cb_grid = chem_test(g)
-    ct_graph, cb_graph = chem_test(gg)
-    L.append("/-- the flag consulted by `if apply_chemostats and <...>` and the statement executed when it is set -/")
-    L.append("def pyChemTestGrid : String := %s" % lean_str(ct_grid))
-    L.append("def pyChemTestGraph : String := %s" % lean_str(ct_graph))
-    L.append("def pyChemBodyGrid : List String := %s" % strs(cb_grid))
-    L.append("def pyChemBodyGraph : List String := %s" % strs(cb_graph))
-    L.append("/-- statements accumulating into `d` (`d = 0` … `d += …` … `return d.convert(...)`), in source order -/")
-    L.append("def pyAccumGrid : List String := %s" % strs(_need(_stmt_texts(kin, g, lambda t: t.startswith("d=") or t.startswith("d+=") or t.startswith("returnd")), "kinetics.py:_compute_dspeciesdt_grid accumulation")))
-    L.append("def pyAccumGraph : List String := %s" % strs(_need(_stmt_texts(kin, gg, lambda t: t.startswith("d=") or t.startswith("d+=") or t.startswith("returnd")), "kinetics.py:_compute_dspeciesdt_graph accumulation")))
-    # graph neighbour enumeration: conditions of the loop over j
-    conds = []
-    for st in _stmts(gg):
-        if isinstance(st, ast.For) and _norm(kin, st.iter) == "range(system.space.size())":
-            for s2 in _stmts(st):
-                if isinstance(s2, ast.If):
-                    conds.append(_norm(kin, s2.test))
-    L.append("def pyGraphNbrConds : List String := %s" % strs(_need(conds, "kinetics.py:_compute_dspeciesdt_graph neighbour loop conditions")))
-
-    # ---- compute_reaction_rates : the statements building rf / rr
-    crr = kin.func("compute_reaction_rates")
-    L.append("/-- `compute_reaction_rates`: statements defining `rf`, `rr`, `volume`, the state index and the returned pair -/")
-    L.append("def pyRateStmts : List String := %s" % strs(_need(_stmt_texts(
-        kin, crr, lambda t: re.match(r"(rf|rr|volume|state_index|ssto|psto|environment_index|environment_label)(=|\*=)", t) or t.startswith("returnrf")),
-        "kinetics.py:compute_reaction_rates rate statements")))
-    # ---- compute_diffusion_rates : formulas of both branches
-    cdr = kin.func("compute_diffusion_rates")
-    L.append("/-- `compute_diffusion_rates`: statements defining the diffusion constants and the returned pairs -/")
-    L.append("def pyDiffStmts : List String := %s" % strs(_need(_stmt_texts(
-        kin, cdr, lambda t: re.match(r"(Di|Dj|Di,Dj|Dij|hi|hj|h|k|kf|kr|Vi|Vj|volumes|surface|distance|src_state_index|dst_state_index)=", t) or t.startswith("return(")),
-        "kinetics.py:compute_diffusion_rates statements")))
-    tests = []
-    for st in _stmts(cdr):
-        if isinstance(st, ast.If):
-            t = _norm(kin, st.test)
-            if "Di" in t or "get_edge" in t or "are_neighbors" in t:
-                tests.append(t)
-    L.append("def pyDiffTests : List String := %s" % strs(_need(tests, "kinetics.py:compute_diffusion_rates tests")))
-    # ---- compute_dstatedt loop order
-    cds = kin.func("compute_dstatedt")
-    loops = [(_norm(kin, st.target), _norm(kin, st.iter)) for st in _stmts(cds) if isinstance(st, ast.For)]
-    L.append("/-- `compute_dstatedt`: nesting of the loops (outer first) and the appended call -/")
-    L.append("def pyDstateLoops : List (String × String) := %s" % lean_list(["(%s, %s)" % (lean_str(a), lean_str(b)) for a, b in _need(loops, "compute_dstatedt loops")]))
-    L.append("def pyDstateStmts : List String := %s\n" % strs(_need(_stmt_texts(kin, cds, lambda t: "append" in t or t.startswith("return")), "compute_dstatedt statements")))
-
-    # ---- rdnetwork.py : dimensions of rate constants, reaction splitting
-    net = PySrc(repo, "src/strengths/rdnetwork.py")
-    for fname, tag in (("kf_units_dimensions", "Kf"), ("kr_units_dimensions", "Kr")):
-        fn = net.func(fname, "Reaction")
-        ret = [st for st in fn.body if isinstance(st, ast.Return)]
-        if len(ret) != 1 or not isinstance(ret[0].value, ast.Call) or getattr(ret[0].value.func, "id", "") != "UnitsDimensions":
-            raise AnchorLost("rdnetwork.py:Reaction.%s return UnitsDimensions(...)" % fname)
-        kw = {k.arg: k.value for k in ret[0].value.keywords}
-        if sorted(kw) != ["quantity", "space", "time"]:
-            raise AnchorLost("rdnetwork.py:Reaction.%s keywords" % fname)
-        counted = [_norm(net, st.iter) for st in fn.body if isinstance(st, ast.For)]
-        incr = _stmt_texts(net, fn, lambda t: t.startswith("count"))
-        L.append("/-- `Reaction.%s` : exponents as functions of `count`, what is counted -/" % fname)
-        for k, nm in (("space", "Space"), ("time", "Time"), ("quantity", "Qty")):
-            L.append("def dim%s%s (count : Int) : Int := %s" % (tag, nm, ExprTr(net, {"count": "count"}).tr(kw[k])))
-        L.append("def dim%sCounted : List String := %s" % (tag, strs(counted + incr)))
-    sp = net.func("split", "Reaction")
-    calls = []
-    for st in _stmts(sp):
-        if isinstance(st, ast.Assign) and isinstance(st.value, ast.Call) and getattr(st.value.func, "id", "") == "Reaction":
-            kw = {k.arg: _norm(net, k.value) for k in st.value.keywords}
-            calls.append((_norm(net, st.targets[0]), kw.get("stoichiometry", ""), kw.get("kf", ""), kw.get("kr", "")))
-    ret = [_norm(net, st) for st in sp.body if isinstance(st, ast.Return)]
-    L.append("/-- `Reaction.split`: (name, stoichiometry, kf, kr) of the two constructed reactions, and the return -/")
-    L.append("def pySplit : List (String × String × String × String) := %s" %
-             lean_list(["(%s, %s, %s, %s)" % tuple(lean_str(x) for x in c) for c in _need(calls, "Reaction.split constructor calls", 2)]))
-    L.append("def pySplitReturn : List String := %s" % strs(ret))
-    for fname in ("ssto", "psto", "dsto"):
-        fn = net.func(fname, "Reaction")
-        L.append("def py_%s : String := %s" % (fname, lean_str(_norm(net, fn.body[-1]))))
-    L.append("")
-
-    # ---- value_processing.get_value_in_env : order of the look-ups
-    vp = PySrc(repo, "src/strengths/value_processing.py")
-    gv = vp.func("get_value_in_env")
-    seq = []
-    for st in _stmts(gv):
-        if isinstance(st, ast.If):
-            seq.append("if:" + _norm(vp, st.test))
-        elif isinstance(st, ast.Return):
-            seq.append(_norm(vp, st))
-    L.append("/-- `get_value_in_env`: tests and returns in source order -/")
-    L.append("def pyGetValueInEnv : List String := %s\n" % strs(_need(seq, "get_value_in_env")))
-
-    # ---- rdsystem.py : make_dxdtf, apply_reaction, get_chemostat
-    rds = PySrc(repo, "src/strengths/rdsystem.py")
-    mk = rds.func("make_dxdtf", "RDSystem")
-    L.append("/-- `RDSystem.make_dxdtf`: simple statements in source order (outer function and the returned closure) -/")
-    L.append("def pyDxdtfStmts : List String := %s" % strs(_need(_stmt_texts(rds, mk, lambda t: True), "make_dxdtf statements")))
-    L.append("def pyDxdtfLoops : List (String × String) := %s" % lean_list(
-        ["(%s, %s)" % (lean_str(_norm(rds, st.target)), lean_str(_norm(rds, st.iter))) for st in _stmts(mk) if isinstance(st, ast.For)]))
-    for dfn in [n for n in ast.walk(mk) if isinstance(n, ast.FunctionDef) and n is not mk]:
-        L.append("def pyDxdtfInner_%s : List String := %s" % (dfn.name, strs(_stmt_texts(rds, dfn, lambda t: True))))
-        L.append("def pyDxdtfInnerLoops_%s : List (String × String) := %s" % (dfn.name, lean_list(
-            ["(%s, %s)" % (lean_str(_norm(rds, st.target)), lean_str(_norm(rds, st.iter))) for st in _stmts(dfn) if isinstance(st, ast.For)])))
-    ar = rds.func("apply_reaction", "RDSystem")
-    loop = [st for st in _stmts(ar) if isinstance(st, ast.For)]
-    _need(loop, "apply_reaction loop", 1)
-    body = []
-    for st in _stmts(loop[0]):
-        body.append(("if:" + _norm(rds, st.test)) if isinstance(st, ast.If) else _norm(rds, st))
-    L.append("/-- `RDSystem.apply_reaction`: the applying loop (iterator, then statements / tests in order) and the `dx` definition -/")
-    L.append("def pyApplyLoop : List String := %s" % strs([_norm(rds, loop[0].target) + " in " + _norm(rds, loop[0].iter)] + body))
-    L.append("def pyApplyDx : List String := %s" % strs(_need(_stmt_texts(rds, ar, lambda t: t.startswith("dx=") or t.startswith("r=")), "apply_reaction dx")))
-    gc = rds.func("get_chemostat", "RDSystem")
-    L.append("def pyGetChemostat : List String := %s" % strs(_stmt_texts(rds, gc, lambda t: True)))
-    sc = rds.func("set_chemostat", "RDSystem")
-    L.append("def pySetChemostat : List String := %s\n" % strs(_stmt_texts(rds, sc, lambda t: True)))
-
-    # ---- librdengine.py : marshalling subscripts and loop orders
-    lre = PySrc(repo, "src/strengths/librdengine.py")
-
-    def store_formula(fname, arr, names):
-        fn = lre.func(fname)
-        for st in _stmts(fn):
-            if isinstance(st, ast.Assign) and isinstance(st.targets[0], ast.Subscript) and _norm(lre, st.targets[0].value) == arr:
-                loops = [(_norm(lre, f.target), _norm(lre, f.iter)) for f in _stmts(fn) if isinstance(f, ast.For)]
-                return ExprTr(lre, names).tr(st.targets[0].slice), _norm(lre, st.value), loops
-        raise AnchorLost("librdengine.py:%s store into %s[...]" % (fname, arr))
-    nm = {"n_reactions": "nr", "n_env": "ne", "s": "s", "r": "r", "e": "e"}
-    f_sub, v_sub, l_sub = store_formula("build_substrate_stoechiometric_matrix", "sub", nm)
-    f_sto, v_sto, l_sto = store_formula("build_stoechiometric_difference_matrix", "sto", nm)
-    f_d, v_d, l_d = store_formula("build_diff_coef_environment_matrix", "D", nm)
-    L.append("/-- `build_*_matrix`: index written, value stored, loops (outer first) -/")
-    L.append("def pySubIndex (nr s r : Int) : Int := %s" % f_sub)
-    L.append("def pyStoIndex (nr s r : Int) : Int := %s" % f_sto)
-    L.append("def pyDIndex (ne s e : Int) : Int := %s" % f_d)
-    L.append("def pySubValue : String := %s" % lean_str(v_sub))
-    L.append("def pyStoValue : String := %s" % lean_str(v_sto))
-    L.append("def pyDValue : String := %s" % lean_str(v_d))
-
-    def loops_lean(l):
-        return lean_list(["(%s, %s)" % (lean_str(a), lean_str(b)) for a, b in l])
-    L.append("def pySubLoops : List (String × String) := %s" % loops_lean(l_sub))
-    L.append("def pyStoLoops : List (String × String) := %s" % loops_lean(l_sto))
-    L.append("def pyDLoops : List (String × String) := %s" % loops_lean(l_d))
-    bk = lre.func("build_reaction_rate_constant_matrix")
-    l_k = [(_norm(lre, f.target), _norm(lre, f.iter)) for f in _stmts(bk) if isinstance(f, ast.For)]
-    app = _stmt_texts(lre, bk, lambda t: t.startswith("km.append") or t.startswith("km=") or t.startswith("returnkm"))
-    L.append("/-- `build_reaction_rate_constant_matrix`: loops (outer first; the list is appended to, so position = e*nr + r) -/")
-    L.append("def pyKLoops : List (String × String) := %s" % loops_lean(_need(l_k, "build_reaction_rate_constant_matrix loops", 2)))
-    L.append("def pyKStmts : List String := %s" % strs(_need(app, "build_reaction_rate_constant_matrix statements")))
-    su = lre.func("setup", "LibRDEngine")
-    L.append("/-- `LibRDEngine.setup`: the reaction splitting loop and the engine units system -/")
-    L.append("def pySetupStmts : List String := %s" % strs(_need(_stmt_texts(
-        lre, su, lambda t: t.startswith("rf,rr=") or t.startswith("reactions") or t.startswith("units_system") or t.startswith("self._units_system")),
-        "LibRDEngine.setup statements")))
-    for fname in ("_setup_grid", "_setup_graph"):
-        fn = lre.func(fname, "LibRDEngine")
-        call = None
+    # ---- accepted-value lists used by the constructors behind the readers
+    def not_in_list(src, fn, what):
         for n in ast.walk(fn):
-            if isinstance(n, ast.Call) and _norm(lre, n.func).startswith("self._lib.engineexport_initialize"):
-                call = n
-        if call is None:
-            raise AnchorLost("librdengine.py:%s engineexport_initialize call" % fname)
-        L.append("/-- `%s`: the arguments handed to the native initialiser, in order -/" % fname)
-        L.append("def pyArgs%s : List String := %s" % (fname, strs([_norm(lre, a) for a in call.args])))
-    for fname in ("_get_data", "_get_t_sample"):
-        fn = lre.func(fname, "LibRDEngine")
-        ret = [st for st in fn.body if isinstance(st, ast.Return)]
-        L.append("def pyRet%s : String := %s" % (fname, lean_str(_norm(lre, ret[-1]) if ret else "")))
-    L.append("\nend Strengths.Gen")
+            if isinstance(n, ast.Compare) and len(n.ops) == 1 and isinstance(n.ops[0], (ast.NotIn, ast.In)) \
+                    and isinstance(n.comparators[0], ast.List):
+                try:
+                    return str_list(n.comparators[0])
+                except AnchorLost:
+                    continue
+        raise AnchorLost("%s:%s accepted-value list (%s)" % (src.rel, fn.name, what))
+
+    def setter(src, cls, prop):
+        for n in src.tree.body:
+            if isinstance(n, ast.ClassDef) and n.name == cls:
+                for f in n.body:
+                    if isinstance(f, ast.FunctionDef) and f.name == prop and any(
+                            isinstance(d, ast.Attribute) and d.attr == "setter" for d in f.decorator_list):
+                        return f
+        raise AnchorLost("%s:%s.%s setter" % (src.rel, cls, prop))
+
+    scr = srcs["rdscript.py"]
+    L.append("/-- accepted values of `RDScript.sampling_policy` / `init_state_processing` -/")
+    L.append("def pyPolicies : List String := %s" % lean_list([lean_str(s) for s in not_in_list(scr, setter(scr, "RDScript", "sampling_policy"), "policies")]))
+    L.append("def pyModes : List String := %s" % lean_list([lean_str(s) for s in not_in_list(scr, setter(scr, "RDScript", "init_state_processing"), "modes")]))
+    grid = srcs["rdgridspace.py"]
+    sbc = grid.func("set_boundary_conditions", "RDGridSpace")
+    lists = []
+    for n in ast.walk(sbc):
+        if isinstance(n, ast.Compare) and len(n.ops) == 1 and isinstance(n.ops[0], ast.NotIn) and isinstance(n.comparators[0], ast.List):
+            lists.append(str_list(n.comparators[0]))
+    if len(lists) != 2:
+        raise AnchorLost("rdgridspace.py:set_boundary_conditions axis / condition lists")
+    L.append("/-- `set_boundary_conditions`: accepted axes, accepted conditions, initial condition per axis -/")
+    L.append("def bcAxes : List String := %s" % lean_list([lean_str(s) for s in lists[0]]))
+    L.append("def bcValues : List String := %s" % lean_list([lean_str(s) for s in lists[1]]))
+    init_bc = None
+    for n in ast.walk(sbc):
+        if isinstance(n, ast.Assign) and isinstance(n.value, ast.Dict) and isinstance(n.targets[0], ast.Attribute) \
+                and n.targets[0].attr == "_boundary_conditions":
+            init_bc = [(const_str(k), const_str(v)) for k, v in zip(n.value.keys, n.value.values)]
+    if init_bc is None:
+        raise AnchorLost("rdgridspace.py:set_boundary_conditions initial dict")
+    L.append("def bcInitial : List (String × String) := %s" % lean_list(["(%s, %s)" % (lean_str(a), lean_str(b)) for a, b in init_bc]))
+    # rdspace_from_dict dispatch on "type"
+    sp = PySrc(repo, "src/strengths/rdspace.py")
+    f = sp.func("rdspace_from_dict")
+    types, dflt_type = [], None
+    for n in ast.walk(f):
+        if isinstance(n, ast.Compare) and len(n.ops) == 1 and isinstance(n.ops[0], ast.Eq) and _dk_is_d_sub(n.left) == "type":
+            types.append(const_str(n.comparators[0]))
+        if isinstance(n, ast.Assign) and _dk_is_d_sub(n.targets[0]) == "type":
+            dflt_type = const_str(n.value)
+    if not types or dflt_type is None:
+        raise AnchorLost("rdspace.py:rdspace_from_dict type dispatch")
+    L.append("/-- `rdspace_from_dict`: dispatch values of \"type\" and the value assumed when the key is absent -/")
+    L.append("def spaceTypes : List String := %s" % lean_list([lean_str(s) for s in types]))
+    L.append("def spaceTypeDefault : String := %s" % lean_str(dflt_type))
+    L.append("\nend Strengths.Gen.DictKeys")
     return "\n".join(L) + "\n"
 
 
@@ -1615,5 +1693,1706 @@ def gen_SystemPy(repo):
                                     bad = _ExprTrMin(rds, {"int(e)": "e", "self.network.nenvironments()": "nenv"}).tr(b.test)
     L.append("/-- `RDSystem.space` setter: a cell environment index for which this holds is rejected (`false` = no validation) -/")
     L.append("def spaceEnvBad (nenv e : Int) : Bool := %s" % (bad if bad is not None else "false"))
+    L.append("\nend Strengths.Gen")
+    return "\n".join(L) + "\n"
+
+
+# =============================================================================================
+# C19: reaction equations (rdnetwork.py Reaction, value_processing label rules)
+# =============================================================================================
+def _norm(src, node):
+    return re.sub(r"\s+", "", src.seg(node))
+
+
+def _string_consts(fn, skip_doc=True):
+    """string constants of a function body in source order (docstrings skipped)"""
+    doc_nodes = set()
+    for n in ast.walk(fn):
+        if isinstance(n, (ast.FunctionDef, ast.ClassDef)) and n.body and isinstance(n.body[0], ast.Expr) \
+                and isinstance(n.body[0].value, ast.Constant) and isinstance(n.body[0].value.value, str):
+            doc_nodes.add(id(n.body[0].value))
+    out = []
+    for n in ast.walk(fn):
+        if isinstance(n, ast.Constant) and isinstance(n.value, str) and id(n) not in doc_nodes:
+            out.append((n.lineno, n.col_offset, n.value))
+    return [v for _, _, v in sorted(out)]
+
+
+def _raises(stmts):
+    return any(isinstance(s, ast.Raise) for s in stmts)
+
+
+def _locals_of(fn):
+    """local variable names of a function (parameters except self, assignment / for / with targets, of nested
+    functions too), in order of first binding"""
+    found = []
+
+    def add(name, pos):
+        if name != "self":
+            found.append((pos, name))
+    for n in ast.walk(fn):
+        if isinstance(n, (ast.FunctionDef, ast.Lambda)):
+            for a in n.args.args + n.args.kwonlyargs:
+                add(a.arg, (a.lineno, a.col_offset))
+        elif isinstance(n, ast.Name) and isinstance(n.ctx, ast.Store):
+            add(n.id, (n.lineno, n.col_offset))
+    out = []
+    for _, name in sorted(found):
+        if name not in out:
+            out.append(name)
+    return out
+
+
+def _alpha(fn):
+    """text normaliser that replaces the function's local variable names by v0, v1, … (order of first binding), so that
+    anchors on statement text do not depend on how locals are called"""
+    names = _locals_of(fn)
+    if not names:
+        return lambda t: t
+    rx = re.compile(r"(?<![\.\w\"'])(%s)(?![\w\"'])" % "|".join(re.escape(x) for x in sorted(names, key=len, reverse=True)))
+    return lambda t: rx.sub(lambda m: "v%d" % names.index(m.group(1)), t)
+
+
+
+def _sum_loop(src, fn):
+    """`acc = 0; for k in list(self.X): acc += self.X[k]` with free names: returns (X, acc) or (None, None)"""
+    for n in ast.walk(fn):
+        if isinstance(n, ast.For) and len(n.body) == 1 and isinstance(n.body[0], ast.AugAssign) \
+                and isinstance(n.body[0].op, ast.Add) and isinstance(n.body[0].target, ast.Name) and isinstance(n.target, ast.Name):
+            m = re.fullmatch(r"self\.(\w+)\[(\w+)\]", _norm(src, n.body[0].value))
+            it = re.fullmatch(r"list\(self\.(\w+)\)", _norm(src, n.iter))
+            acc = n.body[0].target.id
+            init = [a for a in fn.body if isinstance(a, ast.Assign) and getattr(a.targets[0], "id", "") == acc
+                    and isinstance(a.value, ast.Constant) and a.value.value == 0]
+            if m and it and m.group(1) == it.group(1) and m.group(2) == n.target.id and init:
+                return m.group(1), acc
+    return None, None
+
+
+
+@group
+def gen_Network(repo):
+    net = PySrc(repo, "src/strengths/rdnetwork.py")
+    vp = PySrc(repo, "src/strengths/value_processing.py")
+    L = ["namespace Strengths.Gen\n"]
+
+    # ---- k*_units_dimensions: UnitsDimensions(space=.., time=.., quantity=..) over `count`
+    dims = {}
+    over = {}
+    for fname in ("kf_units_dimensions", "kr_units_dimensions"):
+        fn = net.func(fname, "Reaction")
+        call = None
+        for n in ast.walk(fn):
+            if isinstance(n, ast.Return) and isinstance(n.value, ast.Call) and getattr(n.value.func, "id", "") == "UnitsDimensions":
+                call = n.value
+        if call is None or call.args or sorted(k.arg for k in call.keywords) != ["quantity", "space", "time"]:
+            raise AnchorLost("rdnetwork.py:%s return UnitsDimensions(space=,time=,quantity=)" % fname)
+        # what is summed: `acc += self._X[k]` inside `for k in list(self._X)`, `acc = 0` before (names free)
+        o, accname = _sum_loop(net, fn)
+        if o is None:
+            raise AnchorLost("rdnetwork.py:%s count loop" % fname)
+        tr = ExprTr(net, {accname: "count"})
+        dims[fname] = {k.arg: tr.tr(k.value) for k in call.keywords}
+        over[fname] = o
+    if dims["kf_units_dimensions"] != dims["kr_units_dimensions"]:
+        raise AnchorLost("rdnetwork.py: kf/kr_units_dimensions formulas differ")
+    d = dims["kf_units_dimensions"]
+    L.append("/-- `Reaction.kf_units_dimensions` / `kr_units_dimensions` (identical formulas) over `count` -/")
+    L.append("def kDimSpace (count : Int) : Int := %s" % d["space"])
+    L.append("def kDimTime (count : Int) : Int := %s" % d["time"])
+    L.append("def kDimQty (count : Int) : Int := %s" % d["quantity"])
+    L.append("/-- the dictionaries whose values are summed into `count` -/")
+    L.append("def kfCountsOver : String := %s" % lean_str(over["kf_units_dimensions"]))
+    L.append("def krCountsOver : String := %s\n" % lean_str(over["kr_units_dimensions"]))
+
+    # ---- kf / kr setters: which dimension function, which acceptance flags
+    def setter(cls, prop, src=net):
+        for n in src.tree.body:
+            if isinstance(n, ast.ClassDef) and n.name == cls:
+                for f in n.body:
+                    if isinstance(f, ast.FunctionDef) and f.name == prop and any(
+                            isinstance(dd, ast.Attribute) and dd.attr == "setter" for dd in f.decorator_list):
+                        return f
+        raise AnchorLost("%s:%s.%s setter" % (src.rel, cls, prop))
+
+    def unitvar_call(fn, src=net):
+        for n in ast.walk(fn):
+            if isinstance(n, ast.Call) and _norm(src, n.func) == "valproc.process_unitvar_input":
+                args = [_norm(src, a) for a in n.args]
+                kw = {k.arg: _norm(src, k.value) for k in n.keywords}
+                return args, kw
+        raise AnchorLost("%s:%s process_unitvar_input call" % (src.rel, fn.name))
+    rows = []
+    for cls, prop in (("Reaction", "kf"), ("Reaction", "kr"), ("Species", "D"), ("Species", "density")):
+        args, kw = unitvar_call(setter(cls, prop))
+        if len(args) != 3:
+            raise AnchorLost("rdnetwork.py:%s.%s process_unitvar_input positional arguments" % (cls, prop))
+        rows.append((cls + "." + prop, args[1], args[2], kw.get("accepts_singlevalue", ""), kw.get("accepts_dict", ""), kw.get("accepts_array", "")))
+    L.append("/-- `process_unitvar_input` calls of the setters: (property, units system, dimensions, single, dict, array) -/")
+    L.append("def unitVarSetters : List (String × String × String × String × String × String) := %s\n" % lean_list(
+        ["(%s)" % ", ".join(lean_str(x) for x in r) for r in rows]))
+
+    # ---- _fromstring: separators, side count, token lengths
+    fs = net.func("_fromstring", "Reaction")
+    al = _alpha(fs)
+    NA = lambda node: re.sub(r"\s+", "", al(net.seg(node)))   # statement text with locals renamed v0, v1, …
+    seps = []
+    for n in ast.walk(fs):
+        if isinstance(n, ast.Call) and isinstance(n.func, ast.Attribute) and n.func.attr == "split" and len(n.args) == 1:
+            seps.append((n.lineno, n.col_offset, const_str(n.args[0])))
+    seps = [s for _, _, s in sorted(seps)]
+    lens = []
+    for n in ast.walk(fs):
+        if isinstance(n, ast.Compare) and isinstance(n.left, ast.Call) and getattr(n.left.func, "id", "") == "len" \
+                and isinstance(n.comparators[0], ast.Constant):
+            lens.append((n.lineno, n.col_offset, "%s%s%d" % (NA(n.left), {ast.Eq: "==", ast.NotEq: "!="}.get(type(n.ops[0]), "?"),
+                                                                n.comparators[0].value)))
+    lens = [s for _, _, s in sorted(lens)]
+    if not seps or not lens:
+        raise AnchorLost("rdnetwork.py:_fromstring split separators / length tests")
+    L.append("/-- `Reaction._fromstring`: separators of the `split(sep)` calls and the `len(..)` tests, in source order -/")
+    L.append("def eqSplitSeps : List String := %s" % lean_list([lean_str(s) for s in seps]))
+    L.append("def eqLenTests : List String := %s" % lean_list([lean_str(s) for s in lens]))
+    # the accumulation `if d.get(label, None) == None : d[label] = coef  else : d[label] += coef`
+    acc = None
+    for n in ast.walk(fs):
+        t = n.test if isinstance(n, ast.If) else None
+        if t is not None and isinstance(t, ast.Compare) and len(t.ops) == 1 and isinstance(t.ops[0], ast.Eq) \
+                and isinstance(t.left, ast.Call) and getattr(t.left.func, "attr", "") == "get" and len(t.left.args) == 2 \
+                and isinstance(t.comparators[0], ast.Constant) and t.comparators[0].value is None \
+                and len(n.body) == 1 and len(n.orelse) == 1:
+            acc = (NA(n.body[0]), NA(n.orelse[0]))
+    if acc is None:
+        raise AnchorLost("rdnetwork.py:_fromstring repeated-label accumulation")
+    L.append("def eqAccumulate : String × String := (%s, %s)" % (lean_str(acc[0]), lean_str(acc[1])))
+    coef = [NA(n) for n in ast.walk(fs) if isinstance(n, ast.Assign) and (
+        (isinstance(n.value, ast.Tuple) and all(isinstance(e, ast.Constant) for e in n.value.elts)) or
+        (isinstance(n.value, ast.Call) and getattr(n.value.func, "id", "") == "int"))]
+    L.append("def eqCoefAssigns : List String := %s\n" % lean_list([lean_str(s) for s in coef]))
+
+    # ---- to_string: the text pieces
+    ts = net.func("to_string", "Reaction")
+    L.append("/-- string constants of `Reaction.to_string` in source order -/")
+    L.append("def toStringConsts : List String := %s" % lean_list([lean_str(s) for s in _string_consts(ts)]))
+    alts = _alpha(ts)
+    tests = [(n.lineno, re.sub(r"\s+", "", alts(net.seg(n.test)))) for n in ast.walk(ts) if isinstance(n, ast.If)]
+    L.append("def toStringTests : List String := %s\n" % lean_list([lean_str(s) for _, s in sorted(tests)]))
+
+    # ---- ssto / psto / dsto / order / rorder
+    def ret_listcomp(fname):
+        fn = net.func(fname, "Reaction")
+        for n in ast.walk(fn):
+            if isinstance(n, ast.Return) and isinstance(n.value, ast.ListComp):
+                lc = n.value
+                if len(lc.generators) != 1 or _norm(net, lc.generators[0].iter) != fn.args.args[1].arg or lc.generators[0].ifs \
+                        or not isinstance(lc.generators[0].target, ast.Name):
+                    raise AnchorLost("rdnetwork.py:%s comprehension over its label-list parameter" % fname)
+                return lc.elt, lc.generators[0].target.id
+        raise AnchorLost("rdnetwork.py:%s return [.. for s in species_labels]" % fname)
+    L.append("/-- entries of `ssto`, `psto`, `dsto` for one species (sub / prod = its coefficient in the two dictionaries) -/")
+    for fname in ("ssto", "psto", "dsto"):
+        elt, var = ret_listcomp(fname)
+        nm = {"int(self._substrates.get(%s,0))" % var: "sub", "int(self._products.get(%s,0))" % var: "prod"}
+        L.append("def %sEntry (sub prod : Int) : Int := %s" % (fname, ExprTr(net, nm).tr(elt)))
+    for fname in ("order", "rorder"):
+        fn = net.func(fname, "Reaction")
+        o, _acc = _sum_loop(net, fn)
+        if o is None:
+            raise AnchorLost("rdnetwork.py:%s sum loop" % fname)
+        L.append("def %sOver : String := %s" % (fname, lean_str(o)))
+    L.append("")
+
+    # ---- split(): the two Reaction(...) calls
+    sp = net.func("split", "Reaction")
+    calls = []
+    for n in ast.walk(sp):
+        if isinstance(n, ast.Call) and getattr(n.func, "id", "") == "Reaction":
+            calls.append((n.lineno, sorted((k.arg, _norm(net, k.value)) for k in n.keywords)))
+    if len(calls) != 2:
+        raise AnchorLost("rdnetwork.py:split two Reaction(...) calls")
+    L.append("/-- keyword arguments of the two `Reaction(...)` calls of `split()` (forward, reverse) -/")
+    for tag, (_, kws) in zip(("Fwd", "Rev"), sorted(calls)):
+        L.append("def split%s : List (String × String) := %s" % (tag, lean_list(["(%s, %s)" % (lean_str(a), lean_str(b)) for a, b in kws])))
+    L.append("")
+
+    # ---- equilibrium_constant: the ratio expressions and the zero tests
+    ec = net.func("equilibrium_constant", "Reaction")
+    alec = _alpha(ec)
+    NE = lambda node: re.sub(r"\s+", "", alec(net.seg(node)))
+    divs = sorted((n.lineno, NE(n)) for n in ast.walk(ec) if isinstance(n, ast.BinOp) and isinstance(n.op, ast.Div))
+    zeros = sorted((n.lineno, NE(n.test)) for n in ast.walk(ec) if isinstance(n, ast.If) and "value==0" in _norm(net, n.test))
+    if not divs or not zeros:
+        raise AnchorLost("rdnetwork.py:equilibrium_constant ratio / zero test")
+    L.append("def kRatios : List String := %s" % lean_list([lean_str(s) for _, s in divs]))
+    L.append("def kZeroTests : List String := %s\n" % lean_list([lean_str(s) for _, s in zeros]))
+
+    # ---- RDNetwork.environments setter: empty list and the reserved name
+    es = setter("RDNetwork", "environments")
+    empty, reserved = False, None
+    envparam = es.args.args[1].arg
+    for n in ast.walk(es):
+        if isinstance(n, ast.If) and _raises(n.body):
+            t = _norm(net, n.test)
+            if t == "len(%s)==0" % envparam:
+                empty = True
+            m = re.fullmatch(r"\w+==\"(\w+)\"", t)
+            if m:
+                reserved = m.group(1)
+    if not empty or reserved is None:
+        raise AnchorLost("rdnetwork.py:RDNetwork.environments setter tests")
+    L.append("/-- `RDNetwork.environments` setter: raises on an empty array and on this reserved name -/")
+    L.append("def envEmptyRejected : Bool := true")
+    L.append("def envReserved : String := %s\n" % lean_str(reserved))
+
+    # ---- _assert_validity: the three raise conditions (normalised text)
+    av = net.func("_assert_validity", "RDNetwork")
+    alav = _alpha(av)
+    conds = sorted((n.lineno, re.sub(r"\s+", "", alav(net.seg(n.test)))) for n in ast.walk(av) if isinstance(n, ast.If) and _raises(n.body))
+    if len(conds) < 4:
+        raise AnchorLost("rdnetwork.py:_assert_validity raise conditions")
+    L.append("def validityRaiseConds : List String := %s\n" % lean_list([lean_str(s) for _, s in conds]))
+
+    # ---- label rules
+    al_fn = vp.func("assert_string_is_a_valid_label")
+    allab = _alpha(al_fn)
+    tests = sorted((n.lineno, re.sub(r"\s+", "", allab(vp.seg(n.test)))) for n in ast.walk(al_fn) if isinstance(n, ast.If) and _raises(n.body))
+    if not tests:
+        raise AnchorLost("value_processing.py:assert_string_is_a_valid_label tests")
+    L.append("/-- raise conditions of `assert_string_is_a_valid_label` (per character `c` of the label) -/")
+    L.append("def labelRaiseConds : List String := %s" % lean_list([lean_str(s) for _, s in tests]))
+    L.append("\nend Strengths.Gen")
+    return "\n".join(L) + "\n"
+
+
+# =============================================================================================
+# C20: validation tables (alias lists, mandatory keys, enumerations, size / range tests, field dimensions)
+# =============================================================================================
+_VAL_MODULES = ["units.py", "rdnetwork.py", "rdgridspace.py", "rdgraphspace.py", "rdsystem.py", "rdscript.py"]
+
+
+def _class_func(src, cls, name, setter=False):
+    for n in src.tree.body:
+        if isinstance(n, ast.ClassDef) and n.name == cls:
+            for f in n.body:
+                if isinstance(f, ast.FunctionDef) and f.name == name:
+                    is_setter = any(isinstance(dd, ast.Attribute) and dd.attr == "setter" for dd in f.decorator_list)
+                    if is_setter == setter:
+                        return f
+    raise AnchorLost("%s:%s.%s%s" % (src.rel, cls, name, " setter" if setter else ""))
+
+
+def _membership_lists(src, fn, var):
+    """string lists L of tests `var not in L` / `not var in L` (that guard a raise) inside fn"""
+    out = []
+    for n in ast.walk(fn):
+        if not (isinstance(n, ast.If) and _raises(n.body)):
+            continue
+        t = n.test
+        neg = False
+        if isinstance(t, ast.UnaryOp) and isinstance(t.op, ast.Not):
+            t, neg = t.operand, True
+        if isinstance(t, ast.Compare) and len(t.ops) == 1 and isinstance(t.comparators[0], ast.List) \
+                and _norm(src, t.left) == var:
+            if (isinstance(t.ops[0], ast.NotIn) and not neg) or (isinstance(t.ops[0], ast.In) and neg):
+                out.append(str_list(t.comparators[0]))
+    return out
+
+
+def _raise_tests(src, fn):
+    """tests that guard a raise, in order, with the function's locals renamed v0, v1, … (independent of their names)"""
+    al = _alpha(fn)
+    return [s for _, s in sorted((n.lineno, re.sub(r"\s+", "", al(src.seg(n.test)))) for n in ast.walk(fn)
+                                 if isinstance(n, ast.If) and _raises(n.body))]
+
+
+def _mandatory_keys(src, fn):
+    """keys of `d` the function cannot do without: `if "k" in d : .. else : raise`, and `d["k"]` read outside
+    any `if "k" in d` guard"""
+    mand = []
+
+    def visit(stmts, guarded):
+        for st in stmts:
+            if isinstance(st, ast.If):
+                m = re.fullmatch(r"\"([^\"]+)\"ind", _norm(src, st.test))
+                if m is None and isinstance(st.test, ast.BoolOp) and isinstance(st.test.op, ast.And):
+                    # `"k" in d and <more about d["k"]>` : the first conjunct guards the others and the body
+                    m0 = re.fullmatch(r"\"([^\"]+)\"ind", _norm(src, st.test.values[0]))
+                    if m0:
+                        for v in st.test.values[1:]:
+                            scan(v, guarded | {m0.group(1)})
+                        visit(st.body, guarded | {m0.group(1)})
+                        visit(st.orelse, guarded)
+                        continue
+                if m:
+                    if _raises(st.orelse) and m.group(1) not in mand:
+                        mand.append(m.group(1))
+                    scan(st.test, guarded)
+                    visit(st.body, guarded | {m.group(1)})
+                    visit(st.orelse, guarded)
+                    continue
+                scan(st.test, guarded)
+                visit(st.body, guarded)
+                visit(st.orelse, guarded)
+            elif isinstance(st, (ast.For, ast.While)):
+                scan(st.iter if isinstance(st, ast.For) else st.test, guarded)
+                visit(st.body, guarded)
+            elif isinstance(st, ast.FunctionDef):
+                continue
+            else:
+                scan(st, guarded)
+
+    def scan(node, guarded):
+        for n in ast.walk(node):
+            if isinstance(n, ast.Subscript) and isinstance(n.value, ast.Name) and n.value.id == "d" \
+                    and isinstance(n.ctx, ast.Load) and isinstance(n.slice, ast.Constant) and isinstance(n.slice.value, str):
+                if n.slice.value not in guarded and n.slice.value not in mand:
+                    mand.append(n.slice.value)
+    visit(fn.body, set())
+    return mand
+
+
+@group
+def gen_Validation(repo):
+    srcs = {m: PySrc(repo, "src/strengths/" + m) for m in _VAL_MODULES}
+    L = ["namespace Strengths.Gen\n"]
+
+    # ---- alias tables and mandatory keys of every function that calls process_input_dict_keys
+    tables = []
+    for m in _VAL_MODULES:
+        src = srcs[m]
+        for fn in src.tree.body:
+            if not isinstance(fn, ast.FunctionDef):
+                continue
+            for n in ast.walk(fn):
+                if isinstance(n, ast.Call) and _norm(src, n.func).endswith("process_input_dict_keys") and len(n.args) >= 2:
+                    if not isinstance(n.args[1], ast.List):
+                        raise AnchorLost("%s:%s synonyms literal" % (m, fn.name))
+                    syn = [str_list(e) for e in n.args[1].elts]
+                    if n.keywords or len(n.args) > 2:
+                        raise AnchorLost("%s:%s process_input_dict_keys policy argument" % (m, fn.name))
+                    tables.append((fn.name, syn, _mandatory_keys(src, fn)))
+    want = {"unitssystem_from_dict", "unitsdimensions_from_dict", "unitarray_from_dict", "species_from_dict", "reaction_from_dict",
+            "rdnetwork_from_dict", "rdgridspace_from_dict", "rdgraphspacenode_from_dict", "rdgraphspaceedge_from_dict",
+            "rdgraphspace_from_dict", "rdsystem_from_dict", "rdscript_from_dict"}
+    missing = want - {t[0] for t in tables}
+    if missing:
+        raise AnchorLost("process_input_dict_keys call in " + ", ".join(sorted(missing)))
+    L.append("/-- synonym lists of every `process_input_dict_keys(d, [[..],..])` call, per enclosing function -/")
+    L.append("def aliasTable : List (String × List (List String)) := [")
+    L.append(",\n".join("  (%s, %s)" % (lean_str(f), lean_list([lean_list([lean_str(k) for k in s]) for s in syn])) for f, syn, _ in tables))
+    L.append("]")
+    L.append("/-- keys (canonical names) each of these functions cannot do without -/")
+    L.append("def mandatoryKeys : List (String × List String) := %s\n" % lean_list(
+        ["(%s, %s)" % (lean_str(f), lean_list([lean_str(k) for k in mand])) for f, _, mand in tables]))
+
+    # ---- process_input_dict_keys itself: the raise sites and the default policy
+    vp = PySrc(repo, "src/strengths/value_processing.py")
+    pk = vp.func("process_input_dict_keys")
+    dflt = [const_str(d) for d in pk.args.defaults]
+    tests = []
+    for n in ast.walk(pk):
+        if isinstance(n, ast.If) and any(isinstance(b, ast.If) and _raises(b.body) for b in n.body):
+            inner = [b for b in n.body if isinstance(b, ast.If) and _raises(b.body)][0]
+            alpk = _alpha(pk)
+            tests.append((n.lineno, re.sub(r"\s+", "", alpk(vp.seg(n.test))), re.sub(r"\s+", "", alpk(vp.seg(inner.test)))))
+    tests = sorted(tests)
+    if len(tests) != 2 or dflt != ["error"]:
+        raise AnchorLost("value_processing.py:process_input_dict_keys raise sites / default policy")
+    L.append("/-- `process_input_dict_keys`: default policy and the two (condition, policy test) pairs that raise -/")
+    L.append("def keysDefaultPolicy : String := %s" % lean_str(dflt[0]))
+    L.append("def keysRaiseSites : List (String × String) := %s" % lean_list(["(%s, %s)" % (lean_str(a), lean_str(b)) for _, a, b in tests]))
+    ru = vp.func("retrive_units_system_from_dict")
+    words = []
+    for n in ast.walk(ru):
+        if isinstance(n, ast.Compare) and _norm(vp, n.left) == "v" and isinstance(n.ops[0], ast.Eq):
+            words.append((n.lineno, const_str(n.comparators[0])))
+    L.append("/-- strings accepted for a \"units\" key -/")
+    L.append("def unitsKeywords : List String := %s\n" % lean_list([lean_str(w) for _, w in sorted(words)]))
+
+    # ---- enumerations
+    grid, graph, script, net, rds, units = (srcs["rdgridspace.py"], srcs["rdgraphspace.py"], srcs["rdscript.py"],
+                                            srcs["rdnetwork.py"], srcs["rdsystem.py"], srcs["units.py"])
+    sbc = _class_func(grid, "RDGridSpace", "set_boundary_conditions")
+    axes = _membership_lists(grid, sbc, "axis")
+    conds = _membership_lists(grid, sbc, "boundary_conditions[axis]")
+    pol = _membership_lists(script, _class_func(script, "RDScript", "sampling_policy", setter=True), "sampling_policy")
+    modes = _membership_lists(script, _class_func(script, "RDScript", "init_state_processing", setter=True), "init_state_processing")
+    for nm, l in (("axes", axes), ("boundary conditions", conds), ("sampling policies", pol), ("processing modes", modes)):
+        if len(l) != 1:
+            raise AnchorLost("accepted-value list of " + nm)
+    L.append("/-- accepted values of the Python setters (anything else raises) -/")
+    L.append("def pyAxes : List String := %s" % lean_list([lean_str(x) for x in axes[0]]))
+    L.append("def pyBoundary : List String := %s" % lean_list([lean_str(x) for x in conds[0]]))
+    L.append("def pyPolicies : List String := %s" % lean_list([lean_str(x) for x in pol[0]]))
+    L.append("def pyModes : List String := %s" % lean_list([lean_str(x) for x in modes[0]]))
+    # the defaults assigned before validation in set_boundary_conditions
+    dfl = None
+    for n in sbc.body:
+        if isinstance(n, ast.Assign) and _norm(grid, n.targets[0]) == "self._boundary_conditions" and isinstance(n.value, ast.Dict):
+            dfl = [(const_str(k), const_str(v)) for k, v in zip(n.value.keys, n.value.values)]
+    if dfl is None:
+        raise AnchorLost("rdgridspace.py:set_boundary_conditions defaults")
+    L.append("def pyBoundaryDefaults : List (String × String) := %s" % lean_list(["(%s, %s)" % (lean_str(a), lean_str(b)) for a, b in dfl]))
+    # is anything stored before the input has been validated? (position of the defaults assignment vs the first raising loop)
+    i_assign = min(i for i, n in enumerate(sbc.body) if isinstance(n, ast.Assign) and _norm(grid, n.targets[0]) == "self._boundary_conditions")
+    i_check = [i for i, n in enumerate(sbc.body) if isinstance(n, ast.For) and any(isinstance(x, ast.Raise) for x in ast.walk(n))]
+    if not i_check:
+        raise AnchorLost("rdgridspace.py:set_boundary_conditions validation loop")
+    stores_in_check_loop = any(isinstance(x, ast.Assign) and _norm(grid, x.targets[0]).startswith("self._boundary_conditions[")
+                               for x in ast.walk(sbc.body[i_check[0]]))
+    L.append("/-- does `set_boundary_conditions` store anything before the whole input is validated? -/")
+    L.append("def bcStoresBeforeValidation : Bool := %s\n" % ("true" if (i_assign < i_check[0] or stores_in_check_loop) else "false"))
+
+    # ---- grid constructor size tests, cell_env length test
+    ctor = _class_func(grid, "RDGridSpace", "__init__")
+    sz = []
+    for n in ctor.body:
+        if isinstance(n, ast.If) and _raises(n.body):
+            sz.append(ExprTr(grid, {"self._w": "w", "self._h": "h", "self._d": "d"}).tr(n.test))
+    if len(sz) != 3:
+        raise AnchorLost("rdgridspace.py:RDGridSpace.__init__ size tests")
+    L.append("/-- `RDGridSpace.__init__`: raises when one of its three size tests holds -/")
+    L.append("def gridSizeBad (w h d : Int) : Bool := (%s)" % " || ".join(sz))
+    ce = _class_func(grid, "RDGridSpace", "cell_env", setter=True)
+    lt = None
+    for n in ast.walk(ce):
+        cepar = ce.args.args[1].arg
+        if isinstance(n, ast.If) and _raises(n.body) and ("len(%s)" % cepar) in _norm(grid, n.test):
+            lt = ExprTr(grid, {"len(%s)" % cepar: "len", "self.size()": "size"}).tr(n.test)
+    if lt is None:
+        raise AnchorLost("rdgridspace.py:cell_env setter length test")
+    L.append("/-- `RDGridSpace.cell_env` setter (array form): raises when -/")
+    L.append("def cellEnvLenBad (len size : Int) : Bool := %s\n" % lt)
+
+    # ---- graph index test, species / reaction / environment index tests
+    gci = _class_func(graph, "RDGraphSpace", "get_cell_index")
+    gt = [n for n in gci.body if isinstance(n, ast.If) and _raises(n.body)]
+    # the local that holds `int(<position parameter>)`, whatever it is called
+    gpos = gci.args.args[1].arg
+    gloc = [n.targets[0].id for n in gci.body if isinstance(n, ast.Assign) and isinstance(n.targets[0], ast.Name)
+            and _norm(graph, n.value) == "int(%s)" % gpos]
+    if len(gt) != 1 or len(gloc) != 1:
+        raise AnchorLost("rdgraphspace.py:get_cell_index range test")
+    L.append("/-- `RDGraphSpace.get_cell_index`: raises when -/")
+    L.append("def graphNodeIndexBad (size i : Int) : Bool := %s" % ExprTr(graph, {gloc[0]: "i", "self.size()": "size"}).tr(gt[0].test))
+    chk = _class_func(graph, "RDGraphSpace", "check")
+    et = []
+    for lp in ast.walk(chk):
+        if isinstance(lp, ast.For) and isinstance(lp.target, ast.Name) and _norm(graph, lp.iter) == "self.edges":
+            ev = lp.target.id
+            et += [ExprTr(graph, {ev + ".i": "i", ev + ".j": "i", "self.size()": "size"}).tr(n.test) for n in ast.walk(lp)
+                   if isinstance(n, ast.If) and _raises(n.body) and "self.size()" in _norm(graph, n.test)]
+    if len(et) != 2 or et[0] != et[1]:
+        raise AnchorLost("rdgraphspace.py:check edge index tests")
+    L.append("def edgeIndexBad (size i : Int) : Bool := %s" % et[0])
+    for fname, cnt, lean in (("get_species_index", "self.nspecies()", "speciesIndexOk"), ("get_reaction_index", "self.nreactions()", "reactionIndexOk"),
+                             ("get_environment_index", "self.nenvironments()", "environmentIndexOk")):
+        fn = _class_func(net, "RDNetwork", fname)
+        first = fn.body[-1] if isinstance(fn.body[-1], ast.If) else None
+        for st in fn.body:
+            if isinstance(st, ast.If):
+                first = st
+                break
+        inner = [b for b in first.body if isinstance(b, ast.If)] if first is not None else []
+        ipar = fn.args.args[1].arg
+        iloc = [n.targets[0].id for n in (first.body if first is not None else []) if isinstance(n, ast.Assign)
+                and isinstance(n.targets[0], ast.Name) and _norm(net, n.value) == "int(%s)" % ipar]
+        if first is None or _norm(net, first.test) != "isnumber(%s)" % ipar or len(inner) != 1 or len(iloc) != 1:
+            raise AnchorLost("rdnetwork.py:%s number branch" % fname)
+        L.append("def %s (n i : Int) : Bool := %s" % (lean, ExprTr(net, {iloc[0]: "i", cnt: "n"}).tr(inner[0].test)))
+    L.append("")
+
+    # ---- named dimensions and the dimension every quantity field demands
+    named = {}
+    for fn in units.tree.body:
+        if isinstance(fn, ast.FunctionDef) and fn.name.endswith("_units_dimensions"):
+            for n in ast.walk(fn):
+                if isinstance(n, ast.Return) and isinstance(n.value, ast.Call) and getattr(n.value.func, "id", "") == "UnitsDimensions":
+                    kw = {k.arg: int(const_number(units, k.value, {})) for k in n.value.keywords}
+                    named[fn.name] = (kw.get("space", 0), kw.get("time", 0), kw.get("quantity", 0))
+    for k in ("density", "surface", "volume", "quantity", "space", "time"):
+        if k + "_units_dimensions" not in named:
+            raise AnchorLost("units.py:%s_units_dimensions" % k)
+
+    def dim_of(src, node):
+        t = _norm(src, node)
+        m = re.fullmatch(r"(\w+)\(\)", t)
+        if m and m.group(1) in named:
+            return named[m.group(1)]
+        if isinstance(node, ast.Dict):
+            kw = {const_str(k): int(const_number(src, v, {})) for k, v in zip(node.keys, node.values)}
+            return (kw.get("space", 0), kw.get("time", 0), kw.get("quantity", 0))
+        raise AnchorLost("%s: dimension expression %s" % (src.rel, t))
+
+    def field_dim(src, cls, prop):
+        fn = _class_func(src, cls, prop, setter=True)
+        for n in ast.walk(fn):
+            if isinstance(n, ast.Call) and _norm(src, n.func) == "valproc.process_unitvar_input" and len(n.args) >= 3:
+                return dim_of(src, n.args[2])
+            if isinstance(n, ast.Call) and getattr(n.func, "id", "") in ("UnitValue", "UnitArray"):
+                conv = {k.arg: _norm(src, k.value) for k in n.keywords}
+                for a in n.args[1:2]:
+                    if isinstance(a, ast.Call) and getattr(a.func, "id", "") == "Units":
+                        dims = [k.value for k in a.keywords if k.arg == "dim"] + list(a.args[1:2])
+                        if dims and (conv.get("convert") == "False" or cls == "RDSystem"):
+                            return dim_of(src, dims[0])
+        raise AnchorLost("%s:%s.%s setter dimension" % (src.rel, cls, prop))
+    fields = [(net, "Species", "D"), (net, "Species", "density"), (grid, "RDGridSpace", "cell_vol"),
+              (graph, "RDGraphSpaceNode", "volume"), (graph, "RDGraphSpaceEdge", "surface"), (graph, "RDGraphSpaceEdge", "distance"),
+              (script, "RDScript", "t_sample"), (script, "RDScript", "time_step"), (script, "RDScript", "t_max"),
+              (script, "RDScript", "sampling_interval"), (rds, "RDSystem", "state")]
+    L.append("/-- named dimensions of units.py: (space, time, quantity) exponents -/")
+    L.append("def namedDims : List (String × Int × Int × Int) := %s" % lean_list(
+        ["(%s, (%d : Int), (%d : Int), (%d : Int))" % ((lean_str(k),) + v) for k, v in sorted(named.items())]))
+    L.append("/-- the dimension demanded by the setter of each quantity field -/")
+    L.append("def fieldDims : List (String × Int × Int × Int) := %s\n" % lean_list(
+        ["(%s, (%d : Int), (%d : Int), (%d : Int))" % ((lean_str(c + "." + p),) + field_dim(s, c, p)) for s, c, p in fields]))
+
+    # ---- UnitArray.set_value: are text items of a list recognised (and parsed as quantities)?
+    sv = _class_func(units, "UnitArray", "set_value")
+    keeps_objects = any(isinstance(n, ast.Call) and _norm(units, n.func) == "np.array" and
+                        any(k.arg == "dtype" and _norm(units, k.value) == "object" for k in n.keywords) for n in ast.walk(sv))
+    alsv = _alpha(sv)
+    str_tests = [re.sub(r"\s+", "", alsv(units.seg(n.test))) for n in ast.walk(sv) if isinstance(n, ast.If) and "str" in _norm(units, n.test)]
+    if not str_tests:
+        raise AnchorLost("units.py:UnitArray.set_value text item test")
+    L.append("/-- `UnitArray.set_value`: the test that recognises text items, and whether the items keep their Python type -/")
+    L.append("def arrayTextTests : List String := %s" % lean_list([lean_str(t) for t in str_tests]))
+    L.append("def arrayTextItemsParsed : Bool := %s\n" % ("true" if keeps_objects else "false"))
+
+    # ---- units symbol checks: which label list each _check_* consults
+    chk = []
+    for name in ("_check_space", "_check_time", "_check_quantity"):
+        fn = _class_func(units, "UnitsSystem", name)
+        m = None
+        for n in ast.walk(fn):
+            if isinstance(n, ast.If) and _raises(n.body):
+                mm = re.fullmatch(r"not%sin_units_labels_dict\[\"(\w+)\"\]" % re.escape(fn.args.args[1].arg), _norm(units, n.test))
+                if mm:
+                    m = mm.group(1)
+        if m is None:
+            raise AnchorLost("units.py:UnitsSystem.%s membership test" % name)
+        chk.append((name, m))
+    L.append("def sysCheckLists : List (String × String) := %s\n" % lean_list(["(%s, %s)" % (lean_str(a), lean_str(b)) for a, b in chk]))
+
+    # ---- which positional accessors of the two space classes validate their position argument
+    def guards(src, cls, names):
+        rows = []
+        for nm in names:
+            fn = _class_func(src, cls, nm)
+            params = tuple(a.arg for a in fn.args.args[1:])
+            g = any(isinstance(n, ast.Call) and _norm(src, n.func) in ("self.get_cell_index", "self.is_within_bounds")
+                    and n.args and _norm(src, n.args[0]) in params for n in ast.walk(fn))
+            rows.append((nm, g))
+        return rows
+    acc = ["get_cell_env", "get_cell_vol", "get_neighbors", "are_neighbors"]
+    L.append("/-- positional accessors: does the method check its position (calls get_cell_index / is_within_bounds on it)? -/")
+    L.append("def gridAccessorGuards : List (String × Bool) := %s" % lean_list(
+        ["(%s, %s)" % (lean_str(a), "true" if b else "false") for a, b in guards(grid, "RDGridSpace", acc + ["get_cell_coordinates", "get_cell_index"])]))
+    L.append("def graphAccessorGuards : List (String × Bool) := %s\n" % lean_list(
+        ["(%s, %s)" % (lean_str(a), "true" if b else "false") for a, b in guards(graph, "RDGraphSpace", acc)]))
+    # ---- RDSystem.__init__: default state / chemostat generation (the only place the environment map is looked up)
+    # happens for `None` and `dict` arguments only
+    rinit = _class_func(rds, "RDSystem", "__init__")
+    tests = [(_norm(rds, n.test), [_norm(rds, b) for b in n.body]) for n in ast.walk(rinit) if isinstance(n, ast.If)]
+    L.append("def systemInitBranches : List (String × List String) := %s\n" % lean_list(
+        ["(%s, %s)" % (lean_str(a), lean_list([lean_str(x) for x in b])) for a, b in tests]))
+
+    sset = _class_func(rds, "RDSystem", "space", setter=True)
+    env_checked = any(isinstance(n, ast.If) and _raises(n.body) and "nenvironments()" in _norm(rds, n.test) for n in ast.walk(sset))
+    alss = _alpha(sset)
+    env_test = [re.sub(r"\s+", "", alss(rds.seg(n.test))) for n in ast.walk(sset) if isinstance(n, ast.If) and _raises(n.body) and "nenvironments()" in _norm(rds, n.test)]
+    L.append("/-- does the `RDSystem.space` setter compare the cells' environment indices with the number of environments? -/")
+    L.append("def systemSpaceChecksEnv : Bool := %s" % ("true" if env_checked else "false"))
+    L.append("def systemSpaceEnvTests : List String := %s\n" % lean_list([lean_str(t) for t in env_test]))
+
+    # ---- engine.cpp: how keywords are compared, and how LibRDEngine.setup surfaces the native error codes
+    eng = _cpp(repo, "engine.cpp")
+    L.append("/-- body of `CompareStr(str1, str2)` in engine.cpp (normalised) -/")
+    L.append("def compareStrBody : String := %s" % lean_str(re.sub(r"\s+", "", cpp_function_body(eng, r"bool\s+CompareStr\s*\([^)]*\)\s*"))))
+    lre = PySrc(repo, "src/strengths/librdengine.py")
+    codes = []
+    for fname in ("_setup_graph", "_setup_grid"):
+        fn = _class_func(lre, "LibRDEngine", fname)
+        codes.append([re.sub(r"^v\d+", "res", t) for t in _raise_tests(lre, fn) if re.fullmatch(r"v\d+==\d+", t)])
+    if not codes[0] or codes[0] != codes[1]:
+        raise AnchorLost("librdengine.py: error codes of engineexport_initialize_* turned into exceptions")
+    L.append("/-- `LibRDEngine._setup_grid/_setup_graph`: return codes of the native initialisation that raise -/")
+    L.append("def engineErrorCodes : List String := %s\n" % lean_list([lean_str(t) for t in codes[0]]))
+
+    # ---- coarse-graining map rules, state-index guard
+    cg = PySrc(repo, "src/strengths/coarsegrain.py")
+    L.append("/-- raise conditions of `check_index_map_validity`, in order -/")
+    L.append("def indexMapRaiseConds : List String := %s" % lean_list([lean_str(s) for s in _raise_tests(cg, cg.func("check_index_map_validity"))]))
+    gsi = _class_func(rds, "RDSystem", "get_state_index")
+    assigns = [(_norm(rds, n.targets[0]), _norm(rds, n.value)) for n in gsi.body if isinstance(n, ast.Assign)]
+    L.append("/-- `RDSystem.get_state_index`: how the two indices are obtained -/")
+    L.append("def stateIndexSources : List (String × String) := %s" % lean_list(["(%s, %s)" % (lean_str(a), lean_str(b)) for a, b in assigns]))
+    L.append("\nend Strengths.Gen")
+    return "\n".join(L) + "\n"
+
+
+# =============================================================================================
+# C17 : RDTrajectory accessors (slices, flat index) and the three sample-index lookups
+# =============================================================================================
+def _norm(src, node):
+    return re.sub(r"\s+", "", src.seg(node))
+
+
+def _lookup_fn(out, name):
+    """translate one `_get_sample_index_*` method: guards before the loop, loop condition, returned index"""
+    fn = out.func(name, "RDTrajectory")
+    names = {"t": "t", "self.t.get_at(0)": "t0", "self.t.get_at(self.nsamples()-1)": "tl",
+             "self.t.get_at(i)": "a", "self.t.get_at(i+1)": "b"}
+
+    def ret_expr(node, in_loop):
+        """`none` | `(some (walk, index))`; walk = the value goes through `self._first_sample_with_same_time(…)`"""
+        if not isinstance(node, ast.Return):
+            raise AnchorLost("rdoutput.py:%s expected return" % name)
+        v = node.value
+        if v is None or (isinstance(v, ast.Constant) and v.value is None):
+            return "none"
+        walk = "false"
+        if isinstance(v, ast.Call) and _norm(out, v.func) == "self._first_sample_with_same_time" and len(v.args) == 1 and not v.keywords:
+            walk = "true"
+            v = v.args[0]
+        txt = _norm(out, v)
+        if isinstance(v, ast.Constant) and isinstance(v.value, int) and not isinstance(v.value, bool) and v.value >= 0:
+            return "(some (%s, %d))" % (walk, v.value)
+        if txt == "self.nsamples()-1":
+            return "(some (%s, n - 1))" % walk
+        if in_loop and txt == "i":
+            return "(some (%s, i))" % walk
+        if in_loop and re.fullmatch(r"i\+(\d+)", txt):
+            return "(some (%s, i + %s))" % (walk, txt[2:])
+        raise AnchorLost("rdoutput.py:%s return value %s" % (name, txt))
+
+    pre, loop = [], None
+    body = [s for s in fn.body if not (isinstance(s, ast.Expr) and isinstance(s.value, ast.Constant))]
+    for st in body:
+        if isinstance(st, ast.If) and loop is None:
+            if st.orelse or len(st.body) != 1:
+                raise AnchorLost("rdoutput.py:%s guard shape" % name)
+            test = _norm(out, st.test)
+            if test == "len(self.t)==0":
+                cond = "(n == 0)"
+            else:
+                cond = ExprTr(out, names).tr(st.test)
+            pre.append((cond, ret_expr(st.body[0], False)))
+        elif isinstance(st, ast.For) and loop is None:
+            if _norm(out, st.iter) != "range(self.nsamples()-1)" or _norm(out, st.target) != "i" or st.orelse:
+                raise AnchorLost("rdoutput.py:%s loop header" % name)
+            if len(st.body) != 1 or not isinstance(st.body[0], ast.If) or st.body[0].orelse:
+                raise AnchorLost("rdoutput.py:%s loop body" % name)
+            inner = st.body[0]
+            cond = ExprTr(out, names).tr(inner.test)
+            loc = dict(names)
+            ret = None
+            for s2 in inner.body:
+                if isinstance(s2, ast.Assign) and len(s2.targets) == 1 and isinstance(s2.targets[0], ast.Name):
+                    loc[s2.targets[0].id] = ExprTr(out, loc).tr(s2.value)
+                elif isinstance(s2, ast.Return):
+                    ret = ret_expr(s2, True)
+                elif isinstance(s2, ast.If) and len(s2.body) == 1 and len(s2.orelse) == 1:
+                    ret = "(if %s then %s else %s)" % (ExprTr(out, loc).tr(s2.test), ret_expr(s2.body[0], True),
+                                                      ret_expr(s2.orelse[0], True))
+                else:
+                    raise AnchorLost("rdoutput.py:%s loop statement" % name)
+            if ret is None:
+                raise AnchorLost("rdoutput.py:%s loop return" % name)
+            loop = (cond, ret)
+        else:
+            raise AnchorLost("rdoutput.py:%s unexpected statement" % name)
+    if loop is None or not pre:
+        raise AnchorLost("rdoutput.py:%s guards / loop" % name)
+    return pre, loop
+
+
+@group
+def gen_TrajPy(repo):
+    out = PySrc(repo, "src/strengths/rdoutput.py")
+    L = ["namespace Strengths.Gen\n"]
+    for tag, name in (("closest", "_get_sample_index_closest"), ("infeq", "_get_sample_index_infeq"),
+                      ("supeq", "_get_sample_index_supeq")):
+        pre, (cond, ret) = _lookup_fn(out, name)
+        chain = "".join("if %s then some %s else " % (c, r) for c, r in pre) + "none"
+        L.append("/-- `RDTrajectory.%s`: the `if … : return …` statements before the loop (n = number of samples,\n"
+                 "t0 / tl = first / last sample time); `none` = falls through to the loop -/" % name)
+        L.append("def %sPre (n : Nat) (t t0 tl : Rat) : Option (Option (Bool × Nat)) := %s" % (tag, chain))
+        L.append("/-- loop `for i in range(self.nsamples()-1)`: test on a = t[i], b = t[i+1] -/")
+        L.append("def %sCond (t a b : Rat) : Bool := %s" % (tag, cond))
+        L.append("/-- value returned by the loop body at index i: (passed through `_first_sample_with_same_time`?, index) -/")
+        L.append("def %sRet (i : Nat) (t a b : Rat) : Option (Bool × Nat) := %s\n" % (tag, ret))
+    # _first_sample_with_same_time: `while <cond> : i -= 1` then `return i`
+    fs = out.func("_first_sample_with_same_time", "RDTrajectory")
+    fbody = [x for x in fs.body if not (isinstance(x, ast.Expr) and isinstance(x.value, ast.Constant))]
+    if not (len(fbody) == 2 and isinstance(fbody[0], ast.While) and not fbody[0].orelse and len(fbody[0].body) == 1
+            and _norm(out, fbody[0].body[0]) == "i-=1" and isinstance(fbody[1], ast.Return) and _norm(out, fbody[1].value) == "i"
+            and [a.arg for a in fs.args.args] == ["self", "i"]):
+        raise AnchorLost("rdoutput.py:_first_sample_with_same_time shape")
+    wcond = ExprTr(out, {"i": "i", "self.t.get_at(i-1)": "a", "self.t.get_at(i)": "b"}).tr(fbody[0].test)
+    L.append("/-- `_first_sample_with_same_time(i)`: `while <this test on i, a = t[i-1], b = t[i]> : i -= 1 ; return i` -/")
+    L.append("def firstSameCond (i : Int) (a b : Rat) : Bool := %s\n" % wcond)
+    gsi = out.func("get_sample_index", "RDTrajectory")
+    pol, disp, conv = None, [], False
+    for n in ast.walk(gsi):
+        if isinstance(n, ast.Compare) and len(n.ops) == 1 and isinstance(n.ops[0], ast.NotIn) and _norm(out, n.left) == "policy":
+            pol = str_list(n.comparators[0])
+        if isinstance(n, ast.If) and isinstance(n.test, ast.Compare) and _norm(out, n.test.left) == "policy" \
+                and isinstance(n.test.ops[0], ast.Eq) and len(n.body) == 1 and isinstance(n.body[0], ast.Return):
+            disp.append((const_str(n.test.comparators[0]), _norm(out, n.body[0].value)))
+        if isinstance(n, ast.Assign) and _norm(out, n) == "t=UnitValue(t,self.t.units,convert=True)":
+            conv = True
+    if pol is None or not disp:
+        raise AnchorLost("rdoutput.py:get_sample_index policy list / dispatch")
+    first = gsi.body[1] if isinstance(gsi.body[0], ast.Expr) else gsi.body[0]
+    L.append("/-- `get_sample_index`: accepted policy strings, dispatch, and whether the first statement converts the\nquery to the units of the sample times -/")
+    L.append("def samplePolicies : List String := %s" % lean_list([lean_str(p) for p in pol]))
+    L.append("def sampleDispatch : List (String × String) := %s" %
+             lean_list(["(%s, %s)" % (lean_str(a), lean_str(b)) for a, b in disp]))
+    L.append("def sampleQueryConverted : Bool := %s\n" % ("true" if conv and _norm(out, first).startswith("t=UnitValue(") else "false"))
+
+    # accessor slices: every `….reshape((…))[slice]` of get_trajectory / get_state, in source order
+    def slices(fn):
+        res = []
+        for n in ast.walk(fn):
+            if isinstance(n, ast.Subscript) and isinstance(n.value, ast.Call) and getattr(n.value.func, "attr", "") == "reshape":
+                res.append((n.lineno, n.col_offset, _norm(out, n.value.func.value), _norm(out, n.slice)))
+        return [(a, b) for _, _, a, b in sorted(res)]
+    gt = out.func("get_trajectory", "RDTrajectory")
+    gs = out.func("get_state", "RDTrajectory")
+    gp = out.func("get_trajectory_point", "RDTrajectory")
+    st, ss = slices(gt), slices(gs)
+    if len(st) != 2 or len(ss) != 2:
+        raise AnchorLost("rdoutput.py:accessor slices")
+    L.append("/-- (array reshaped, slice) of `get_trajectory` (cell, merged) and `get_state` (whole, species) -/")
+    L.append("def trajectorySlices : List (String × String) := %s" % lean_list(["(%s, %s)" % (lean_str(a), lean_str(b)) for a, b in st]))
+    L.append("def stateSlices : List (String × String) := %s" % lean_list(["(%s, %s)" % (lean_str(a), lean_str(b)) for a, b in ss]))
+    # merge: `[sum(state) for state in …]`
+    merged = None
+    for n in ast.walk(gt):
+        if isinstance(n, ast.ListComp) and len(n.generators) == 1:
+            merged = (_norm(out, n.elt), _norm(out, n.generators[0].target))
+    if merged is None:
+        raise AnchorLost("rdoutput.py:get_trajectory merge comprehension")
+    L.append("def mergeComprehension : String × String := (%s, %s)" % (lean_str(merged[0]), lean_str(merged[1])))
+
+    # how the three accessors obtain their indices, and the units they return
+    def assigns(fn):
+        res = []
+        for n in ast.walk(fn):
+            if isinstance(n, ast.Assign) and len(n.targets) == 1 and isinstance(n.targets[0], ast.Name) \
+                    and n.targets[0].id in ("species_index", "cell_index", "sample_index"):
+                res.append((n.lineno, n.targets[0].id, _norm(out, n.value)))
+        return sorted(set((b, c) for _, b, c in res))
+    for tag, fn in (("Trajectory", gt), ("State", gs), ("Point", gp)):
+        L.append("def indexSources%s : List (String × String) := %s" %
+                 (tag, lean_list(["(%s, %s)" % (lean_str(a), lean_str(b)) for a, b in assigns(fn)])))
+    units_args = []
+    for fn in (gt, gs):
+        for n in ast.walk(fn):
+            if isinstance(n, ast.Call) and getattr(n.func, "id", "") == "UnitArray" and len(n.args) >= 2:
+                units_args.append(_norm(out, n.args[1]))
+    L.append("def accessorUnits : List String := %s" % lean_list([lean_str(u) for u in units_args]))
+    L.append("def pointAccessor : String := %s" % lean_str(_norm(out, [n for n in ast.walk(gp) if isinstance(n, ast.Return)][-1].value.func)))
+    # shape methods
+    for nm in ("ncells", "nspecies", "nsamples"):
+        f = out.func(nm, "RDTrajectory")
+        L.append("def shape_%s : String := %s" % (nm, lean_str(_norm(out, f.body[-1].value))))
+    L.append("\nend Strengths.Gen")
+    return "\n".join(L) + "\n"
+
+
+# =============================================================================================
+# C16 : coarse-graining — the tests of check_index_map_validity, the aggregation subscripts of
+#       coarsegrain_system, the spreading subscripts of uncoarsegrain_trajectory_data, and the
+#       shape of the loops of coarsegrain_grid
+# =============================================================================================
+@group
+def gen_CoarsePy(repo):
+    cg = PySrc(repo, "src/strengths/coarsegrain.py")
+    L = ["namespace Strengths.Gen\n"]
+
+    # ---- check_index_map_validity: statements in order
+    chk = cg.func("check_index_map_validity")
+    body = [s for s in chk.body if not (isinstance(s, ast.Expr) and isinstance(s.value, ast.Constant))]
+    tests = []        # (tag, lean Bool expr or text)
+    order = []
+
+    def raises(stmts):
+        return len(stmts) == 1 and isinstance(stmts[0], ast.Raise)
+    env_loop = None
+    assigned = {}
+    for st in body:
+        if isinstance(st, ast.If) and raises(st.body) and not st.orelse:
+            t = _norm(cg, st.test)
+            if t.startswith("len(im)"):
+                tests.append(("imLenBad", "(len size : Int) : Bool", ExprTr(cg, {"len(im)": "len", "space.size()": "size"}).tr(st.test)))
+                order.append("length")
+            elif "im_min" in t:
+                tests.append(("imMinBad", "(mn : Int) : Bool", ExprTr(cg, {"im_min": "mn"}).tr(st.test)))
+                order.append("min")
+            elif "im_max" in t:
+                tests.append(("imMaxBad", "(mx : Int) : Bool", ExprTr(cg, {"im_max": "mx"}).tr(st.test)))
+                order.append("max")
+            else:
+                raise AnchorLost("coarsegrain.py:check_index_map_validity unknown test " + t)
+        elif isinstance(st, ast.For) and len(st.body) == 1 and isinstance(st.body[0], ast.If) and raises(st.body[0].body) \
+                and not st.body[0].orelse:
+            it, tgt, t = _norm(cg, st.iter), _norm(cg, st.target), _norm(cg, st.body[0].test)
+            if it == "im" and tgt == "i":
+                L.append("/-- element type test of `check_index_map_validity` -/\ndef imTypeTest : String := %s" % lean_str(t))
+                order.append("type")
+            elif tgt == "i" and isinstance(st.iter, ast.Call) and getattr(st.iter.func, "id", "") == "range" and len(st.iter.args) == 2:
+                lo = ExprTr(cg, {"im_max": "mx"}).tr(st.iter.args[0])
+                hi = ExprTr(cg, {"im_max": "mx"}).tr(st.iter.args[1])
+                L.append("/-- presence loop `for i in range(lo, hi): if i not in im: raise` -/")
+                L.append("def imPresenceLo (mx : Int) : Int := %s\ndef imPresenceHi (mx : Int) : Int := %s" % (lo, hi))
+                L.append("def imPresenceTest : String := %s" % lean_str(t))
+                order.append("presence")
+            else:
+                raise AnchorLost("coarsegrain.py:check_index_map_validity unknown loop " + it)
+        elif isinstance(st, ast.Assign) and len(st.targets) == 1 and isinstance(st.targets[0], ast.Name):
+            assigned[st.targets[0].id] = _norm(cg, st.value)
+        elif isinstance(st, ast.For):
+            env_loop = st
+            order.append("envloop")
+        else:
+            raise AnchorLost("coarsegrain.py:check_index_map_validity unexpected statement")
+    for k, want in (("im_max", "max(im)"), ("im_min", "min(im)"), ("env", "space.get_cell_env_array()")):
+        if assigned.get(k) != want:
+            raise AnchorLost("coarsegrain.py:check_index_map_validity %s = %s" % (k, want))
+    m = re.fullmatch(r"\[(-?\d+)foriinrange\(min\(im\),max\(im\)\+1\)\]", assigned.get("env_out", ""))
+    if not m or env_loop is None:
+        raise AnchorLost("coarsegrain.py:check_index_map_validity env_out / environment loop")
+    sentinel = int(m.group(1))
+    if _norm(cg, env_loop.iter) != "range(space.size())" or _norm(cg, env_loop.target) != "i":
+        raise AnchorLost("coarsegrain.py:check_index_map_validity environment loop header")
+    eb = list(env_loop.body)
+    skip = None
+    if isinstance(eb[0], ast.If) and len(eb[0].body) == 1 and isinstance(eb[0].body[0], ast.Continue) and not eb[0].orelse:
+        skip = ExprTr(cg, {"im[i]": "g"}).tr(eb[0].test)
+        eb = eb[1:]
+    if len(eb) != 1 or not isinstance(eb[0], ast.If):
+        raise AnchorLost("coarsegrain.py:check_index_map_validity environment loop body")
+    node = eb[0]
+    nm = {"env_out[im[i]]": "cur", "env[i]": "e"}
+    c1 = ExprTr(cg, nm).tr(node.test)
+    if not (len(node.body) == 1 and isinstance(node.body[0], ast.Assign) and _norm(cg, node.body[0]) == "env_out[im[i]]=env[i]"):
+        raise AnchorLost("coarsegrain.py:check_index_map_validity environment loop first branch")
+    if not (len(node.orelse) == 1 and isinstance(node.orelse[0], ast.If)):
+        raise AnchorLost("coarsegrain.py:check_index_map_validity environment loop elif")
+    n2 = node.orelse[0]
+    c2 = ExprTr(cg, nm).tr(n2.test)
+    if not (len(n2.body) == 1 and isinstance(n2.body[0], ast.Pass) and raises(n2.orelse)):
+        raise AnchorLost("coarsegrain.py:check_index_map_validity environment loop else raise")
+    for tag, sig, e in tests:
+        L.append("def %s %s := %s" % (tag, sig, e))
+    L.append("/-- order of the tests -/\ndef imTestOrder : List String := %s" % lean_list([lean_str(o) for o in order]))
+    L.append("/-- environment loop: initial slot value, skip test on g = im[i] (`false` when absent), first-seen test and same-environment test\non cur = env_out[im[i]], e = env[i]; anything else raises -/")
+    L.append("def envSentinel : Int := (%d : Int)" % sentinel)
+    L.append("def envSkip (g : Int) : Bool := %s" % (skip if skip is not None else "false"))
+    L.append("def envUnset (cur e : Int) : Bool := %s" % c1)
+    L.append("def envSame (cur e : Int) : Bool := %s\n" % c2)
+
+    # ---- coarsegrain_system: the two aggregation statements
+    cs = cg.func("coarsegrain_system")
+    aug = [n for n in ast.walk(cs) if isinstance(n, ast.AugAssign) and isinstance(n.op, ast.Add)]
+    nm = {"s": "s", "cgspace.size()": "ncg", "index_map[i]": "g", "system.space.size()": "n", "i": "i"}
+    found = {}
+    for a in aug:
+        tgt, val = a.target, a.value
+        if isinstance(tgt, ast.Subscript) and isinstance(val, ast.Subscript):
+            found[_norm(cg, tgt.value)] = (ExprTr(cg, nm).tr(tgt.slice), _norm(cg, val.value), ExprTr(cg, nm).tr(val.slice))
+    if sorted(found) != ["cgchstt", "cgstate"]:
+        raise AnchorLost("coarsegrain.py:coarsegrain_system aggregation statements")
+    if found["cgstate"][1] != "system.state.value" or found["cgchstt"][1] != "system.chemostats":
+        raise AnchorLost("coarsegrain.py:coarsegrain_system aggregation sources")
+    L.append("/-- `coarsegrain_system`: cgstate[dst] += state[src] ; cgchstt[dst] += chemostats[src]  (ncg = #groups, n = #cells, g = index_map[i]) -/")
+    L.append("def cgStateDst (ncg s g : Int) : Int := %s" % found["cgstate"][0])
+    L.append("def cgStateSrc (n s i : Int) : Int := %s" % found["cgstate"][2])
+    L.append("def cgChemDst (ncg s g : Int) : Int := %s" % found["cgchstt"][0])
+    L.append("def cgChemSrc (n s i : Int) : Int := %s" % found["cgchstt"][2])
+    guard = None
+    for n in ast.walk(cs):
+        if isinstance(n, ast.If) and any(isinstance(x, ast.For) for x in n.body):
+            guard = ExprTr(cg, {"index_map[i]": "g"}).tr(n.test)
+    if guard is None:
+        raise AnchorLost("coarsegrain.py:coarsegrain_system dropped-cell guard")
+    L.append("def cgKeep (g : Int) : Bool := %s" % guard)
+    clamp = None
+    for n in ast.walk(cs):
+        if isinstance(n, ast.Assign) and _norm(cg, n.targets[0]) == "cgchstt[i]":
+            clamp = _norm(cg, n.value)
+    if clamp is None:
+        raise AnchorLost("coarsegrain.py:coarsegrain_system chemostat clamp")
+    L.append("def cgChemClamp : String := %s" % lean_str(clamp))
+    sizes = sorted(set(_norm(cg, n.value) for n in ast.walk(cs) if isinstance(n, ast.Assign) and _norm(cg, n.targets[0]) in ("cgstate", "cgchstt")
+                       and isinstance(n.value, ast.ListComp)))
+    L.append("def cgArrayInit : List String := %s\n" % lean_list([lean_str(x) for x in sizes]))
+
+    # ---- coarsegrain_grid: guards and the accumulate statements, as text (loops are hand-modelled)
+    gg = cg.func("coarsegrain_grid")
+    acc = [(_norm(cg, n.target), _norm(cg, n.value)) for n in ast.walk(gg) if isinstance(n, ast.AugAssign)]
+    L.append("/-- `coarsegrain_grid`: every augmented assignment (target, value), in source order -/")
+    L.append("def cgGridAccumulate : List (String × String) := %s" %
+             lean_list(["(%s, %s)" % (lean_str(a), lean_str(b)) for a, b in acc]))
+    conds = [_norm(cg, n.test) for n in ast.walk(gg) if isinstance(n, ast.If)]
+    L.append("def cgGridTests : List String := %s" % lean_list([lean_str(c) for c in conds]))
+    asg = [(_norm(cg, n.targets[0]), _norm(cg, n.value)) for n in ast.walk(gg) if isinstance(n, ast.Assign)
+           and _norm(cg, n.targets[0]) in ("i", "j", "c", "n_cell_out", "nodes[index_map[i]].environment", "edge.distance", "distance", "grid_cell_edge")]
+    L.append("def cgGridAssign : List (String × String) := %s" % lean_list(["(%s, %s)" % (lean_str(a), lean_str(b)) for a, b in asg]))
+    app = [_norm(cg, n) for n in ast.walk(gg) if isinstance(n, ast.Call) and getattr(n.func, "attr", "") == "append"]
+    L.append("def cgGridAppends : List String := %s\n" % lean_list([lean_str(a) for a in app]))
+
+    # ---- grid_to_graph: the three face tests and the neighbour coordinates
+    g2g = cg.func("grid_to_graph")
+    faces = []
+    for n in ast.walk(g2g):
+        if isinstance(n, ast.If) and len(n.body) == 1 and isinstance(n.body[0], ast.Expr) and "edges.append" in _norm(cg, n.body[0]):
+            call = n.body[0].value.args[0]
+            kw = {k.arg: _norm(cg, k.value) for k in call.keywords}
+            faces.append((_norm(cg, n.test), kw.get("i", ""), kw.get("j", ""), kw.get("surface", ""), kw.get("distance", "")))
+    if len(faces) != 3:
+        raise AnchorLost("coarsegrain.py:grid_to_graph face tests")
+    L.append("/-- `grid_to_graph`: (test, i, j, surface, distance) of the three inner-face statements -/")
+    L.append("def g2gFaces : List (String × String × String × String × String) := %s" %
+             lean_list(["(%s)" % ", ".join(lean_str(x) for x in f) for f in faces]))
+    geo = [(_norm(cg, n.targets[0]), _norm(cg, n.value)) for n in g2g.body if isinstance(n, ast.Assign)
+           and _norm(cg, n.targets[0]) in ("edge_dst", "edge_sfc")]
+    L.append("def g2gGeometry : List (String × String) := %s\n" % lean_list(["(%s, %s)" % (lean_str(a), lean_str(b)) for a, b in geo]))
+
+    # ---- uncoarsegrain_trajectory_data
+    un = cg.func("uncoarsegrain_trajectory_data")
+    store = None
+    for n in ast.walk(un):
+        if isinstance(n, ast.Assign) and isinstance(n.targets[0], ast.Subscript) and _norm(cg, n.targets[0].value) == "data":
+            store = n
+    if store is None:
+        raise AnchorLost("coarsegrain.py:uncoarsegrain_trajectory_data store")
+    nm = {"n": "k", "state_size": "ssz", "s": "s", "ncg_space.size()": "nf", "j": "j"}
+    L.append("/-- `uncoarsegrain_trajectory_data`: data[dst] = in_state[n, s, node_index] / len(cg_nodes[node_index]) -/")
+    L.append("def uncgDst (ssz nf k s j : Int) : Int := %s" % ExprTr(cg, nm).tr(store.targets[0].slice))
+    L.append("def uncgValue : String := %s" % lean_str(_norm(cg, store.value)))
+    ssz = _assign_value(cg, un, "state_size")
+    L.append("def uncgStateSize (ns nf : Int) : Int := %s" %
+             ExprTr(cg, {"trajectory.system.network.nspecies()": "ns", "ncg_space.size()": "nf"}).tr(ssz))
+    L.append("def uncgDataInit : String := %s" % lean_str(_norm(cg, _assign_value(cg, un, "data"))))
+    L.append("def uncgInState : String := %s" % lean_str(_norm(cg, _assign_value(cg, un, "in_state"))))
+    memb = [(_norm(cg, n.test), _norm(cg, n.body[0])) for n in ast.walk(un) if isinstance(n, ast.If) and len(n.body) == 1]
+    L.append("def uncgMembers : List (String × String) := %s" % lean_list(["(%s, %s)" % (lean_str(a), lean_str(b)) for a, b in memb]))
+    loops = [(_norm(cg, n.target), _norm(cg, n.iter)) for n in ast.walk(un) if isinstance(n, ast.For)]
+    L.append("def uncgLoops : List (String × String) := %s" % lean_list(["(%s, %s)" % (lean_str(a), lean_str(b)) for a, b in loops]))
+
+    # ---- simulate_script glue
+    sim = PySrc(repo, "src/strengths/simulate.py")
+    ss = sim.func("simulate_script")
+    glue = []
+    for n in ast.walk(ss):
+        if isinstance(n, ast.If) and _norm(sim, n.test) == "cgmapisNone":
+            glue = [_norm(sim, s) for s in n.orelse]
+    if not glue:
+        raise AnchorLost("simulate.py:simulate_script cgmap branch")
+    L.append("/-- `simulate_script`, branch `cgmap is not None` -/")
+    L.append("def simulateCgGlue : List String := %s" % lean_list([lean_str(g) for g in glue]))
+    L.append("\nend Strengths.Gen")
+    return "\n".join(L) + "\n"
+
+
+# =============================================================================================
+# lifecycle (C08-C11): RDScript / LibRDEngine / RDTrajectory / simulate_script skeletons (Python side)
+# =============================================================================================
+def _lf_norm(txt):
+    return re.sub(r"\s+", "", txt)
+
+
+def _lf_stmts_text(src, body):
+    """normalised source text of a statement list (docstrings dropped)"""
+    out = []
+    for n in body:
+        if isinstance(n, ast.Expr) and isinstance(n.value, ast.Constant) and isinstance(n.value.value, str):
+            continue
+        out.append(_lf_norm(ast.unparse(n)))      # (unparse: comments and layout do not matter)
+    return out
+
+
+def _lf_setter(src, cls, name):
+    for n in src.tree.body:
+        if isinstance(n, ast.ClassDef) and n.name == cls:
+            for f in n.body:
+                if isinstance(f, ast.FunctionDef) and f.name == name and any(
+                        isinstance(d, ast.Attribute) and d.attr == "setter" for d in f.decorator_list):
+                    return f
+    raise AnchorLost("%s:%s.%s setter" % (src.rel, cls, name))
+
+
+def _lf_getter(src, cls, name):
+    for n in src.tree.body:
+        if isinstance(n, ast.ClassDef) and n.name == cls:
+            for f in n.body:
+                if isinstance(f, ast.FunctionDef) and f.name == name and any(
+                        isinstance(d, ast.Name) and d.id == "property" for d in f.decorator_list):
+                    return f
+    raise AnchorLost("%s:%s.%s getter" % (src.rel, cls, name))
+
+
+def _lf_in_list(src, fn, var):
+    """the literal list of `if [not] var [not] in [...]`"""
+    for n in ast.walk(fn):
+        if isinstance(n, ast.Compare) and len(n.ops) == 1 and isinstance(n.ops[0], (ast.NotIn, ast.In)) \
+                and isinstance(n.left, ast.Name) and n.left.id == var and isinstance(n.comparators[0], (ast.List, ast.Tuple)):
+            return str_list(n.comparators[0])
+    raise AnchorLost("%s:%s membership test of %s" % (src.rel, fn.name, var))
+
+
+@group
+def gen_ScriptPy(repo):
+    sc = PySrc(repo, "src/strengths/rdscript.py")
+    L = ["namespace Strengths.Gen\n"]
+
+    def strs(l):
+        return lean_list([lean_str(x) for x in l])
+    pol = _lf_in_list(sc, _lf_setter(sc, "RDScript", "sampling_policy"), "sampling_policy")
+    L.append("/-- accepted values of `RDScript.sampling_policy` -/")
+    L.append("def scriptPolicies : List String := %s" % strs(pol))
+    modes = _lf_in_list(sc, _lf_setter(sc, "RDScript", "init_state_processing"), "init_state_processing")
+    L.append("def scriptModes : List String := %s" % strs(modes))
+    # t_max getter: if self._t_max=="default": return <expr>
+    g = _lf_getter(sc, "RDScript", "t_max")
+    dflt = None
+    for n in ast.walk(g):
+        if isinstance(n, ast.If) and _lf_norm(sc.seg(n.test)) == 'self._t_max=="default"':
+            for r in n.body:
+                if isinstance(r, ast.Return):
+                    dflt = _lf_norm(sc.seg(r.value))
+    if dflt is None:
+        raise AnchorLost("rdscript.py:RDScript.t_max default branch")
+    L.append("/-- value of `RDScript.t_max` when it was set to \"default\" -/")
+    L.append("def pyTMaxDefault : String := %s" % lean_str(dflt))
+    init = sc.func("__init__", cls="RDScript")
+    args = init.args
+    names = [a.arg for a in args.args][1:]
+    defaults = [None] * (len(names) - len(args.defaults)) + list(args.defaults)
+    ctor = [(nm, _lf_norm(sc.seg(d)) if d is not None else "") for nm, d in zip(names, defaults)]
+    L.append("def pyScriptCtor : List (String × String) := %s" % lean_list(["(%s, %s)" % (lean_str(a), lean_str(b)) for a, b in ctor]))
+    tm = dict(ctor).get("t_max")
+    if tm is None:
+        raise AnchorLost("rdscript.py:RDScript.__init__ t_max parameter")
+    L.append("def pyTMaxCtorDefault : String := %s" % lean_str(tm.strip('"')))
+    L.append("/-- the `rng_seed` setter, statement by statement -/")
+    L.append("def pySeedSetter : List String := %s" % strs(_lf_stmts_text(sc, _lf_setter(sc, "RDScript", "rng_seed").body)))
+    L.append("def pyScriptCopy : List String := %s" % strs(_lf_stmts_text(sc, sc.func("copy", cls="RDScript").body)))
+
+    le = PySrc(repo, "src/strengths/librdengine.py")
+
+    def self_attrs(fn):
+        out = []
+        for n in ast.walk(fn):
+            if isinstance(n, ast.Assign):
+                for t in n.targets:
+                    if isinstance(t, ast.Attribute) and isinstance(t.value, ast.Name) and t.value.id == "self" and t.attr not in out:
+                        out.append(t.attr)
+        return out
+    L.append("\n/-- attributes `LibRDEngine.__init__` / `setup` assign -/")
+    L.append("def wrapperInitAttrs : List String := %s" % strs(self_attrs(le.func("__init__", cls="LibRDEngine"))))
+    setup = le.func("setup", cls="LibRDEngine")
+    L.append("def wrapperSetupAttrs : List String := %s" % strs(self_attrs(setup)))
+    # position of the assignments relative to the first statement that can raise / call the library
+    first = _lf_stmts_text(le, setup.body)[:2]
+    L.append("def wrapperSetupHead : List String := %s" % strs(first))
+    for m in ("run", "iterate", "iterate_n", "get_progress", "sample", "is_complete", "_count_samples", "finalize"):
+        L.append("def wrapper_%s : List String := %s" % (m, strs(_lf_stmts_text(le, le.func(m, cls="LibRDEngine").body))))
+    gd = le.func("_get_data", cls="LibRDEngine")
+    L.append("def wrapperGetDataHead : List String := %s" % strs(_lf_stmts_text(le, gd.body)[:4]))
+
+    ro = PySrc(repo, "src/strengths/rdoutput.py")
+    L.append("\n/-- `RDTrajectory.__init__` -/")
+    L.append("def trajectoryInit : List String := %s" % strs(_lf_stmts_text(ro, ro.func("__init__", cls="RDTrajectory").body)))
+    L.append("def trajectoryNSamples : List String := %s" % strs(_lf_stmts_text(ro, ro.func("nsamples", cls="RDTrajectory").body)))
+
+    sm = PySrc(repo, "src/strengths/simulate.py")
+    ss = sm.func("simulate_script")
+    plain = None
+    for n in ss.body:
+        if isinstance(n, ast.If) and _lf_norm(sm.seg(n.test)) == "cgmapisNone":
+            plain = n.body
+    if plain is None:
+        raise AnchorLost("simulate.py:simulate_script plain branch")
+    calls = []
+    for n in plain:
+        for c in ast.walk(n):
+            if isinstance(c, ast.Call) and isinstance(c.func, ast.Attribute) and isinstance(c.func.value, ast.Name) and c.func.value.id == "engine":
+                calls.append(_lf_norm(sm.seg(c)))
+    L.append("\n/-- engine calls of `simulate_script` (plain branch), in source order -/")
+    L.append("def simulateEngineCalls : List String := %s" % strs(calls))
+    L.append("\nend Strengths.Gen")
+    return "\n".join(L) + "\n"
+
+
+# =============================================================================================
+# lifecycle (C08-C11), C++ side: what Init assigns, member inventory (G8), Poisson guards
+# =============================================================================================
+def _lf_class_body(text, cls):
+    m = re.search(r"class\s+%s\b[^{]*" % cls, text)
+    if not m:
+        raise AnchorLost("class " + cls)
+    return cpp_function_body(text[m.start():], r"class\s+%s\b[^{]*" % cls)
+
+
+def _lf_members(body):
+    """data members declared at depth 0 of a class body (lines without parentheses ending in ';')"""
+    out = []
+    depth = 0
+    for line in body.splitlines():
+        d0 = depth
+        depth += line.count("{") - line.count("}")
+        if d0 != 0 or "(" in line or ")" in line:
+            continue
+        m = re.match(r"^\s*(?:[\w:]+(?:<[^;]*>)?)\s+([\w\s,]+);\s*$", line)
+        if m:
+            out += [x.strip() for x in m.group(1).split(",") if x.strip()]
+    return out
+
+
+@group
+def gen_EngineLife(repo):
+    L = ["namespace Strengths.Gen\n"]
+
+    def strs(l):
+        return lean_list([lean_str(x) for x in l])
+    for tag, fname, cls, helpers in (
+            ("Grid", "SimulationAlgorithm3DBase.hpp", "SimulationAlgorithm3DBase", ["BuildMeshNeighbors", "Build_mesh_kr", "Build_mesh_kd"]),
+            ("Graph", "SimulationAlgorithmGraphBase.hpp", "SimulationAlgorithmGraphBase", ["SetNeighbors", "Build_mesh_kr", "Build_mesh_kd"])):
+        text = _cpp(repo, fname)
+        body = _lf_class_body(text, cls)
+        init = cpp_function_body(body, r"void\s+Init\s*\(")
+        assigns = [(a, _lf_norm(b)) for a, b in re.findall(r"this->(\w+)\s*=\s*([^;]+);", init)]
+        if not assigns:
+            raise AnchorLost(cls + " Init assignments")
+        sampler = [(a, b) for a, b in assigns if a in ("sample_pos", "sampling_done_this_iteration", "last_tsi_ratio", "t", "complete")]
+        L.append("/-- `%s::Init`: sampler members as assigned, in order -/" % cls)
+        L.append("def initSamplerAssigns%s : List (String × String) := %s" %
+                 (tag, lean_list(["(%s, %s)" % (lean_str(a), lean_str(b)) for a, b in sampler])))
+        stm = [_lf_norm(x) for x in init.split(";") if x.strip()]
+        L.append("def initLastCall%s : String := %s" % (tag, lean_str(stm[-1])))
+        L.append("def initRngAssign%s : String := %s" % (tag, lean_str(dict(assigns).get("rng", ""))))
+        assigned = [a for a, _ in assigns] + re.findall(r"this->(\w+)\s*\.\s*(?:clear|resize)\s*\(", init)
+        for h in helpers:
+            if not re.search(r"\b%s\s*\(" % h, init):
+                raise AnchorLost("%s::Init no longer calls %s" % (cls, h))
+            hb = cpp_function_body(body, r"void\s+%s\s*\(" % h)
+            assigned += re.findall(r"this->(\w+)\s*=", hb) + re.findall(r"\b(\w+)\s*\.\s*(?:resize|clear)\s*\(", hb)
+        seen = []
+        for a in assigned:
+            if a not in seen:
+                seen.append(a)
+        L.append("def members%s : List String := %s" % (tag, strs(_lf_members(body))))
+        L.append("def initAssigned%s : List String := %s" % (tag, strs(seen)))
+        pb = cpp_function_body(body, r"int\s+Poisson\s*\(")
+        L.append("def poissonBody%s : String := %s\n" % (tag, lean_str(_lf_norm(pb))))
+    for fname, cls in (("Euler3D.hpp", "Euler3D"), ("TauLeap3D.hpp", "TauLeap3D"), ("Gillespie3D.hpp", "Gillespie3D"),
+                       ("EulerGraph.hpp", "EulerGraph"), ("TauLeapGraph.hpp", "TauLeapGraph"), ("GillespieGraph.hpp", "GillespieGraph")):
+        body = _lf_class_body(_cpp(repo, fname), cls)
+        asi = cpp_function_body(body, r"void\s+AlgorithmSpecificInit\s*\(")
+        L.append("def members%s : List String := %s" % (cls, strs(_lf_members(body))))
+        L.append("def initAssigned%s : List String := %s" % (cls, strs(re.findall(r"this->(\w+)\s*\.\s*resize", asi) + re.findall(r"this->(\w+)\s*=", asi))))
+    eng = _cpp(repo, "engine.cpp")
+    guards = [_lf_norm(g) for g in re.findall(r"=\s*(\([^;]*poisson_distribution[^;]*);", eng)]
+    L.append("\n/-- every construction of `std::poisson_distribution` in engine.cpp, with its guard -/")
+    L.append("def initPoissonSites : List String := %s" % strs(guards))
+    L.append("def poissonMentions : Nat := %d" % sum(len(re.findall(r"poisson_distribution", _cpp(repo, f))) for f in (
+        "engine.cpp", "SimulationAlgorithm3DBase.hpp", "SimulationAlgorithmGraphBase.hpp", "TauLeap3D.hpp", "TauLeapGraph.hpp",
+        "Gillespie3D.hpp", "GillespieGraph.hpp", "Euler3D.hpp", "EulerGraph.hpp")))
+    # every statement of the engine sources that mentions the generator `rng` (seeded once in Init, advanced only by draws)
+    uses = []
+    for f in ("SimulationAlgorithm3DBase.hpp", "SimulationAlgorithmGraphBase.hpp", "Euler3D.hpp", "EulerGraph.hpp", "TauLeap3D.hpp",
+              "TauLeapGraph.hpp", "Gillespie3D.hpp", "GillespieGraph.hpp"):
+        for stmt in re.split(r"[;{}]", _cpp(repo, f)):
+            if re.search(r"\brng\b", stmt):
+                uses.append((f, _lf_norm(stmt)))
+    L.append("def rngMentions : List (String × String) := %s" % lean_list(["(%s, %s)" % (lean_str(a), lean_str(b)) for a, b in uses]))
+    for fn in ("engineexport_get_progress", "engineexport_get_nsamples", "engineexport_get_time"):
+        b = cpp_function_body(eng, r"%s\s*\([^)]*\)\s*" % fn)
+        L.append("def body_%s : String := %s" % (fn, lean_str(_lf_norm(b))))
+    # the `new …; global_algo_freed = false` statements of the two initialisers
+    news = [_lf_norm(x) for x in re.findall(r"\{\s*(global_\w+_algo\s*=\s*new\s+\w+\(\)\s*;\s*global_algo_freed\s*=\s*\w+\s*;)\s*\}", eng)]
+    L.append("def engineNewSites : List String := %s" % strs(news))
+    st = [_lf_norm(x) for x in re.findall(r"(global_space_type\s*=\s*\d+\s*;)", eng)]
+    L.append("def engineSpaceTypeAssigns : List String := %s" % strs(st))
+    L.append("\nend Strengths.Gen")
+    return "\n".join(L) + "\n"
+
+
+# =============================================================================================
+# Stoch (builder "stoch": C07, C02, C14): the statement lists of the stochastic / Euler step functions of
+# the six algorithms and the two base classes, GenerateStochasticDistribution, the init-state dispatch
+# of engine.cpp, the Poisson/normal switch, and the Python-side accepted modes / default.
+# =============================================================================================
+def _cpp_stmts(body):
+    """normalised statement list of a C++ block: blanks removed, split at ';', '{', '}' (kept)"""
+    stmts, cur, par = [], "", 0
+    for ch in body:
+        if ch == "(":
+            par += 1
+        elif ch == ")":
+            par -= 1
+        if ch in "{}" and par == 0:
+            if cur.strip():
+                stmts.append(re.sub(r"\s+", "", cur))
+            cur = ""
+            stmts.append(ch)
+        elif ch == ";" and par == 0:
+            stmts.append(re.sub(r"\s+", "", cur))
+            cur = ""
+        else:
+            cur += ch
+    if cur.strip():
+        stmts.append(re.sub(r"\s+", "", cur))
+    return [s for s in stmts if s]
+
+
+def _balanced(text, i):
+    """text[i] == '{' -> index of the matching '}'"""
+    depth, j = 0, i
+    while j < len(text):
+        if text[j] == "{":
+            depth += 1
+        elif text[j] == "}":
+            depth -= 1
+            if depth == 0:
+                return j
+        j += 1
+    raise AnchorLost("unbalanced braces")
+
+
+@group
+def gen_Stoch(repo):
+    def strs(l):
+        return lean_list([lean_str(x) for x in l])
+    L = ["namespace Strengths.Gen\n"]
+    eng = _cpp(repo, "engine.cpp")
+
+    # ---- GenerateStochasticDistribution
+    body = cpp_function_body(eng, r"GenerateStochasticDistribution\s*\([^)]*\)\s*")
+    stm = _cpp_stmts(body)
+    m = re.search(r"if\s*\(\s*mesh_x\[i\]\s*<\s*([0-9.eE+-]+)\s*\)", body)
+    if not m:
+        raise AnchorLost("GenerateStochasticDistribution Poisson/normal switch")
+    L.append("/-- `GenerateStochasticDistribution`: below this amount an entry is a Poisson draw, from it on a floored normal draw -/")
+    L.append("def poissonNormalSwitch : Rat := %s" % lean_rat(Fraction(m.group(1))))
+    L.append("/-- `GenerateStochasticDistribution`, whole body as a normalised statement list -/")
+    L.append("def gsdBody : List String := %s" % strs(stm))
+    # the draw target and the scan of the correction loop
+    m = re.search(r"double\s+target\s*=\s*([^;]+);", body)
+    if not m:
+        raise AnchorLost("GenerateStochasticDistribution target")
+    L.append("def gsdTarget : String := %s" % lean_str(re.sub(r"\s+", "", m.group(1))))
+    m = re.search(r"cumul\s*\+=\s*mesh_x\[([^\]]+)\]\s*;\s*if\s*\(([^)]*)\)", body)
+    if not m:
+        raise AnchorLost("GenerateStochasticDistribution scan")
+    nm = {"i": "i", "s": "s", "n_species": "ns"}
+    L.append("/-- index of entry (cell i, species s) in the cell-major arrays of `GenerateStochasticDistribution` -/")
+    L.append("def gsdIndex (ns s i : Int) : Int := %s" % CppExpr(m.group(1), nm).parse())
+    L.append("def gsdHitCond : String := %s\n" % lean_str(re.sub(r"\s+", "", m.group(2))))
+
+    # ---- init-state dispatch: (condition, statements of the branch) in order, then the else branch
+    for tag, fr in (("Grid", r"int\s+engineexport_initialize_grid\s*\("), ("Graph", r"int\s+engineexport_initialize_graph\s*\(")):
+        b = cpp_function_body(eng, fr)
+        pos = b.find("is_stochastic")
+        if pos < 0:
+            raise AnchorLost("engine.cpp is_stochastic " + tag)
+        m = re.search(r"bool\s+is_stochastic\s*=\s*([^;]+);", b)
+        if not m:
+            raise AnchorLost("engine.cpp is_stochastic definition " + tag)
+        L.append("def isStochasticDef%s : String := %s" % (tag, lean_str(re.sub(r"\s+", "", m.group(1)))))
+        branches = []
+        cur = m.end()
+        while True:
+            mm = re.compile(r"\s*(?:else\s+)?if\s*\(").match(b, cur)
+            if not mm:
+                break
+            # balanced parenthesis of the condition
+            i = mm.end() - 1
+            depth, j = 0, i
+            while True:
+                if b[j] == "(":
+                    depth += 1
+                elif b[j] == ")":
+                    depth -= 1
+                    if depth == 0:
+                        break
+                j += 1
+            cond = re.sub(r"\s+", "", b[i + 1:j])
+            k = b.index("{", j)
+            e = _balanced(b, k)
+            branches.append((cond, _cpp_stmts(b[k + 1:e])))
+            cur = e + 1
+        mm = re.compile(r"\s*else\s*\{").match(b, cur)
+        if not mm or not branches:
+            raise AnchorLost("engine.cpp init_state_processing dispatch " + tag)
+        e = _balanced(b, mm.end() - 1)
+        branches.append(("else", _cpp_stmts(b[mm.end():e])))
+        if not all("init_state_processing" in c for c, _ in branches[:-1]):
+            raise AnchorLost("engine.cpp init_state_processing dispatch conditions " + tag)
+        L.append("/-- the `init_state_processing` dispatch: (condition, statements) per branch, `else` last -/")
+        L.append("def initBranches%s : List (String × List String) := %s" %
+                 (tag, lean_list(["(%s, %s)" % (lean_str(c), strs(s)) for c, s in branches])))
+        # what Init receives as the state
+        mi = re.search(r"global_(?:grid|graph)_algo\s*->\s*Init\s*\(", b)
+        if not mi:
+            raise AnchorLost("engine.cpp Init call " + tag)
+        args = b[mi.end():]
+        L.append("def initPassesMeshX%s : Bool := %s" % (tag, "true" if re.search(r"\bmesh_x\s*,", args) else "false"))
+    L.append("")
+
+    # ---- step functions of the algorithms (normalised statement lists)
+    def fn_stmts(fname, regex):
+        return _cpp_stmts(cpp_function_body(_cpp(repo, fname), regex))
+    items = [
+        ("reactionProp", r"double\s+ReactionProp\s*\([^)]*\)\s*", "SimulationAlgorithm3DBase.hpp", "SimulationAlgorithmGraphBase.hpp"),
+        ("diffusionProp", r"double\s+DiffusionProp\s*\([^)]*\)\s*", "SimulationAlgorithm3DBase.hpp", "SimulationAlgorithmGraphBase.hpp"),
+        ("diffusionRate", r"double\s+DiffusionRate\s*\([^)]*\)\s*", "SimulationAlgorithm3DBase.hpp", "SimulationAlgorithmGraphBase.hpp"),
+        ("diffusionRateDifference", r"double\s+DiffusionRateDifference\s*\([^)]*\)\s*", "SimulationAlgorithm3DBase.hpp", "SimulationAlgorithmGraphBase.hpp"),
+        ("reactionRate", r"double\s+ReactionRate\s*\([^)]*\)\s*", "SimulationAlgorithm3DBase.hpp", "SimulationAlgorithmGraphBase.hpp"),
+        ("poissonFn", r"int\s+Poisson\s*\([^)]*\)\s*", "SimulationAlgorithm3DBase.hpp", "SimulationAlgorithmGraphBase.hpp"),
+        ("buildMeshKr", r"void\s+Build_mesh_kr\s*\([^)]*\)\s*", "SimulationAlgorithm3DBase.hpp", "SimulationAlgorithmGraphBase.hpp"),
+        ("buildMeshKd", r"void\s+Build_mesh_kd\s*\([^)]*\)\s*", "SimulationAlgorithm3DBase.hpp", "SimulationAlgorithmGraphBase.hpp"),
+        ("computePropensities", r"void\s+ComputePropensities\s*\(\s*\)\s*", "Gillespie3D.hpp", "GillespieGraph.hpp"),
+        ("applyReaction", r"void\s+ApplyReaction\s*\([^)]*\)\s*", "Gillespie3D.hpp", "GillespieGraph.hpp"),
+        ("applyDiffusion", r"void\s+ApplyDiffusion\s*\([^)]*\)\s*", "Gillespie3D.hpp", "GillespieGraph.hpp"),
+        ("drawAndApplyEvent", r"void\s+DrawAndApplyEvent\s*\(\s*\)\s*", "Gillespie3D.hpp", "GillespieGraph.hpp"),
+        ("computeNevt", r"void\s+Compute_nevt\s*\(\s*\)\s*", "TauLeap3D.hpp", "TauLeapGraph.hpp"),
+        ("applyNevt", r"void\s+Apply_nevt\s*\(\s*\)\s*", "TauLeap3D.hpp", "TauLeapGraph.hpp"),
+        ("computeDxdt", r"void\s+Compute_dxdt\s*\(\s*\)\s*", "Euler3D.hpp", "EulerGraph.hpp"),
+        ("applyDxdt", r"void\s+Apply_dxdt\s*\(\s*\)\s*", "Euler3D.hpp", "EulerGraph.hpp"),
+    ]
+    for name, rx, f3, fg in items:
+        L.append("def %sGrid : List String := %s" % (name, strs(fn_stmts(f3, rx))))
+        L.append("def %sGraph : List String := %s" % (name, strs(fn_stmts(fg, rx))))
+    L.append("def setNeighborsGraph : List String := %s" %
+             strs(fn_stmts("SimulationAlgorithmGraphBase.hpp", r"void\s+SetNeighbors\s*\([^)]*\)\s*")))
+    # rng / uniform set-up in Init (seeded from the argument, uniform on [0,1))
+    for tag, fname in (("Grid", "SimulationAlgorithm3DBase.hpp"), ("Graph", "SimulationAlgorithmGraphBase.hpp")):
+        t = _cpp(repo, fname)
+        m1 = re.search(r"this->rng\s*=\s*([^;]+);", t)
+        m2 = re.search(r"this->uiud\s*=\s*([^;]+);", t)
+        if not m1 or not m2:
+            raise AnchorLost("rng / uiud set-up in Init " + tag)
+        L.append("def rngInit%s : List String := %s" % (tag, strs([re.sub(r"\s+", "", m1.group(1)), re.sub(r"\s+", "", m2.group(1))])))
+    L.append("")
+
+    # ---- Python side: accepted modes, default, how the mode reaches the engine
+    src = PySrc(repo, "src/strengths/rdscript.py")
+    setter = None
+    for n in ast.walk(src.tree):
+        if isinstance(n, ast.FunctionDef) and n.name == "init_state_processing" and len(n.args.args) == 2:
+            setter = n
+    if setter is None:
+        raise AnchorLost("rdscript.py:init_state_processing setter")
+    modes = None
+    for n in ast.walk(setter):
+        if isinstance(n, ast.Compare) and len(n.ops) == 1 and isinstance(n.ops[0], (ast.NotIn, ast.In)) \
+                and isinstance(n.comparators[0], (ast.List, ast.Tuple)):
+            modes = str_list(n.comparators[0])
+            # must be `if not x in [...] : raise`  or  `if x not in [...] : raise`
+    if modes is None:
+        raise AnchorLost("rdscript.py:init_state_processing accepted list")
+    raises = any(isinstance(n, ast.Raise) for n in ast.walk(setter))
+    L.append("/-- `RDScript.init_state_processing` setter: accepted values (anything else raises) -/")
+    L.append("def pyInitModes : List String := %s" % strs(modes))
+    L.append("def pyInitModesGuarded : Bool := %s" % ("true" if raises else "false"))
+    init = src.func("__init__", cls="RDScript")
+    default = None
+    args = init.args
+    names = [a.arg for a in args.args]
+    defaults = [None] * (len(names) - len(args.defaults)) + list(args.defaults)
+    for nme, dflt in zip(names, defaults):
+        if nme == "init_state_processing" and dflt is not None:
+            default = const_str(dflt)
+    if default is None:
+        raise AnchorLost("rdscript.py:RDScript.__init__ default of init_state_processing")
+    L.append("def pyInitModeDefault : String := %s" % lean_str(default))
+    lre = PySrc(repo, "src/strengths/librdengine.py")
+    passed = re.findall(r"ctypes\.c_char_p\(\s*script\.init_state_processing\.encode\(\)\s*\)", lre.text)
+    L.append("/-- number of `engineexport_initialize_*` calls that pass `script.init_state_processing` unchanged -/")
+    L.append("def pyInitModePassed : Nat := %d" % len(passed))
+    # engine_collection: which options require molecules (quantity unit forced to 'molecule')
+    L.append("\nend Strengths.Gen")
+    return "\n".join(L) + "\n"
+
+
+# =============================================================================================
+# Python kinetics / marshalling (C01, C03, C04): neighbour enumeration, wrap lines, chemostat lookup,
+# rate / diffusion formulas (normalised text), rate-constant dimensions, marshalling subscripts and loop orders
+# =============================================================================================
+def _norm(src, node):
+    return re.sub(r"\s+", "", src.seg(node))
+
+
+def _stmts(fn):
+    """all statements of a function, depth first, in source order"""
+    out = []
+
+    def rec(body):
+        for st in body:
+            out.append(st)
+            for fld in ("body", "orelse", "finalbody"):
+                sub = getattr(st, fld, None)
+                if isinstance(sub, list):
+                    rec(sub)
+    rec(fn.body)
+    return out
+
+
+def _stmt_texts(src, fn, keep):
+    """normalised source text of the simple statements (Assign/AugAssign/Return/Expr) of fn selected by keep(text)"""
+    res = []
+    for st in _stmts(fn):
+        if isinstance(st, (ast.Assign, ast.AugAssign, ast.Return, ast.Expr)):
+            if isinstance(st, ast.Expr) and isinstance(st.value, ast.Constant) and isinstance(st.value.value, str):
+                continue   # docstring
+            t = _norm(src, st)
+            if keep(t):
+                res.append(t)
+    return res
+
+
+def _need(lst, what, n=None):
+    if not lst or (n is not None and len(lst) != n):
+        raise AnchorLost("%s (found %d)" % (what, len(lst)))
+    return lst
+
+
+@group
+def gen_KineticsPy(repo):
+    kin = PySrc(repo, "src/strengths/kinetics.py")
+    L = ["namespace Strengths.Gen\n"]
+
+    def strs(l):
+        return lean_list([lean_str(x) for x in l])
+
+    # ---- _compute_dspeciesdt_grid : candidate list, wrap lines, bounds test, chemostat test, accumulation
+    g = kin.func("_compute_dspeciesdt_grid")
+    cand = None
+    for st in _stmts(g):
+        if isinstance(st, ast.For) and isinstance(st.iter, ast.List) and isinstance(st.target, ast.Name) and st.target.id == "c":
+            cand = st
+    if cand is None:
+        raise AnchorLost("kinetics.py:_compute_dspeciesdt_grid candidate loop `for c in [[...]...]`")
+    offs = []
+    for el in cand.iter.elts:
+        if not (isinstance(el, ast.List) and len(el.elts) == 3):
+            raise AnchorLost("kinetics.py:_compute_dspeciesdt_grid candidate triple")
+        tri = []
+        for k, comp in enumerate(el.elts):
+            t = _norm(kin, comp)
+            m = re.fullmatch(r"p\[(\d)\](?:([-+])(\d+))?", t)
+            if not m or int(m.group(1)) != k:
+                raise AnchorLost("kinetics.py:_compute_dspeciesdt_grid candidate component " + t)
+            tri.append(int((m.group(2) or "+") + (m.group(3) or "0")))
+        offs.append(tuple(tri))
+    L.append("/-- `_compute_dspeciesdt_grid`: the six candidate neighbours as coordinate offsets, in loop order -/")
+    L.append("def pyNbrOffsets : List (Int × Int × Int) := %s" %
+             lean_list(["((%d : Int), (%d : Int), (%d : Int))" % t for t in offs]))
+    wraps = {}
+    for st in cand.body:
+        if isinstance(st, ast.If) and isinstance(st.test, ast.BoolOp) and isinstance(st.test.op, ast.And) and len(st.test.values) == 2:
+            a, b = st.test.values
+            ta = _norm(kin, a)
+            m = re.fullmatch(r'system\.space\._boundary_conditions\["([xyz])"\]=="(\w+)"', ta)
+            if not m:
+                continue
+            ax = "xyz".index(m.group(1))
+            size = "system.space." + "whd"[ax]
+            if len(st.body) != 1 or not isinstance(st.body[0], ast.Assign) or _norm(kin, st.body[0].targets[0]) != "c[%d]" % ax:
+                raise AnchorLost("kinetics.py:_compute_dspeciesdt_grid wrap assignment of axis %d" % ax)
+            guard = ExprTr(kin, {size: "n"}).tr(b)
+            expr = ExprTr(kin, {size: "n", "c[%d]" % ax: "c"}).tr(st.body[0].value)
+            wraps[ax] = (m.group(2), guard, expr)
+    if sorted(wraps) != [0, 1, 2]:
+        raise AnchorLost("kinetics.py:_compute_dspeciesdt_grid wrap lines (three `if ... periodical and size > 1`)")
+    L.append("/-- boundary-condition string that enables wrapping, per axis -/")
+    L.append("def pyWrapMode : List String := %s" % strs([wraps[a][0] for a in range(3)]))
+    for a in range(3):
+        L.append("/-- wrap of axis %d: extra guard on the axis length `n`, and the new coordinate from `n` and candidate `c` -/" % a)
+        L.append("def pyWrapGuard%d (n : Int) : Bool := %s" % (a, wraps[a][1]))
+        L.append("def pyWrap%d (n c : Int) : Int := %s" % (a, wraps[a][2]))
+    inb = [st for st in cand.body if isinstance(st, ast.If) and _norm(kin, st.test) == "system.space.is_within_bounds(c)"]
+    _need(inb, "kinetics.py:_compute_dspeciesdt_grid `if system.space.is_within_bounds(c)`", 1)
+    L.append("def pyGridNbrBody : List String := %s" % strs([_norm(kin, s) for s in inb[0].body]))
+
+    def chem_test(fn):
+        for st in fn.body:
+            if isinstance(st, ast.If) and isinstance(st.test, ast.BoolOp) and isinstance(st.test.op, ast.And) \
+                    and _norm(kin, st.test.values[0]) == "apply_chemostats" and len(st.test.values) == 2:
+                return _norm(kin, st.test.values[1]), [_norm(kin, s) for s in st.body]
+        raise AnchorLost("kinetics.py:%s `if apply_chemostats and ...`" % fn.name)
+    gg = kin.func("_compute_dspeciesdt_graph")
+    ct_grid, cb_grid = chem_test(g)
+    ct_graph, cb_graph = chem_test(gg)
+    L.append("/-- the flag consulted by `if apply_chemostats and <...>` and the statement executed when it is set -/")
+    L.append("def pyChemTestGrid : String := %s" % lean_str(ct_grid))
+    L.append("def pyChemTestGraph : String := %s" % lean_str(ct_graph))
+    L.append("def pyChemBodyGrid : List String := %s" % strs(cb_grid))
+    L.append("def pyChemBodyGraph : List String := %s" % strs(cb_graph))
+    L.append("/-- statements accumulating into `d` (`d = 0` … `d += …` … `return d.convert(...)`), in source order -/")
+    L.append("def pyAccumGrid : List String := %s" % strs(_need(_stmt_texts(kin, g, lambda t: t.startswith("d=") or t.startswith("d+=") or t.startswith("returnd")), "kinetics.py:_compute_dspeciesdt_grid accumulation")))
+    L.append("def pyAccumGraph : List String := %s" % strs(_need(_stmt_texts(kin, gg, lambda t: t.startswith("d=") or t.startswith("d+=") or t.startswith("returnd")), "kinetics.py:_compute_dspeciesdt_graph accumulation")))
+    # graph neighbour enumeration: conditions of the loop over j
+    conds = []
+    for st in _stmts(gg):
+        if isinstance(st, ast.For) and _norm(kin, st.iter) == "range(system.space.size())":
+            for s2 in _stmts(st):
+                if isinstance(s2, ast.If):
+                    conds.append(_norm(kin, s2.test))
+    L.append("def pyGraphNbrConds : List String := %s" % strs(_need(conds, "kinetics.py:_compute_dspeciesdt_graph neighbour loop conditions")))
+
+    # ---- compute_reaction_rates : the statements building rf / rr
+    crr = kin.func("compute_reaction_rates")
+    L.append("/-- `compute_reaction_rates`: statements defining `rf`, `rr`, `volume`, the state index and the returned pair -/")
+    L.append("def pyRateStmts : List String := %s" % strs(_need(_stmt_texts(
+        kin, crr, lambda t: re.match(r"(rf|rr|volume|state_index|ssto|psto|environment_index|environment_label)(=|\*=)", t) or t.startswith("returnrf")),
+        "kinetics.py:compute_reaction_rates rate statements")))
+    # ---- compute_diffusion_rates : formulas of both branches
+    cdr = kin.func("compute_diffusion_rates")
+    L.append("/-- `compute_diffusion_rates`: statements defining the diffusion constants and the returned pairs -/")
+    L.append("def pyDiffStmts : List String := %s" % strs(_need(_stmt_texts(
+        kin, cdr, lambda t: re.match(r"(Di|Dj|Di,Dj|Dij|hi|hj|h|k|kf|kr|Vi|Vj|volumes|surface|distance|src_state_index|dst_state_index)=", t) or t.startswith("return(")),
+        "kinetics.py:compute_diffusion_rates statements")))
+    tests = []
+    for st in _stmts(cdr):
+        if isinstance(st, ast.If):
+            t = _norm(kin, st.test)
+            if "Di" in t or "get_edge" in t or "are_neighbors" in t:
+                tests.append(t)
+    L.append("def pyDiffTests : List String := %s" % strs(_need(tests, "kinetics.py:compute_diffusion_rates tests")))
+    # ---- compute_dstatedt loop order
+    cds = kin.func("compute_dstatedt")
+    loops = [(_norm(kin, st.target), _norm(kin, st.iter)) for st in _stmts(cds) if isinstance(st, ast.For)]
+    L.append("/-- `compute_dstatedt`: nesting of the loops (outer first) and the appended call -/")
+    L.append("def pyDstateLoops : List (String × String) := %s" % lean_list(["(%s, %s)" % (lean_str(a), lean_str(b)) for a, b in _need(loops, "compute_dstatedt loops")]))
+    L.append("def pyDstateStmts : List String := %s\n" % strs(_need(_stmt_texts(kin, cds, lambda t: "append" in t or t.startswith("return")), "compute_dstatedt statements")))
+
+    # ---- rdnetwork.py : dimensions of rate constants, reaction splitting
+    net = PySrc(repo, "src/strengths/rdnetwork.py")
+    for fname, tag in (("kf_units_dimensions", "Kf"), ("kr_units_dimensions", "Kr")):
+        fn = net.func(fname, "Reaction")
+        ret = [st for st in fn.body if isinstance(st, ast.Return)]
+        if len(ret) != 1 or not isinstance(ret[0].value, ast.Call) or getattr(ret[0].value.func, "id", "") != "UnitsDimensions":
+            raise AnchorLost("rdnetwork.py:Reaction.%s return UnitsDimensions(...)" % fname)
+        kw = {k.arg: k.value for k in ret[0].value.keywords}
+        if sorted(kw) != ["quantity", "space", "time"]:
+            raise AnchorLost("rdnetwork.py:Reaction.%s keywords" % fname)
+        counted = [_norm(net, st.iter) for st in fn.body if isinstance(st, ast.For)]
+        incr = _stmt_texts(net, fn, lambda t: t.startswith("count"))
+        L.append("/-- `Reaction.%s` : exponents as functions of `count`, what is counted -/" % fname)
+        for k, nm in (("space", "Space"), ("time", "Time"), ("quantity", "Qty")):
+            L.append("def dim%s%s (count : Int) : Int := %s" % (tag, nm, ExprTr(net, {"count": "count"}).tr(kw[k])))
+        L.append("def dim%sCounted : List String := %s" % (tag, strs(counted + incr)))
+    sp = net.func("split", "Reaction")
+    calls = []
+    for st in _stmts(sp):
+        if isinstance(st, ast.Assign) and isinstance(st.value, ast.Call) and getattr(st.value.func, "id", "") == "Reaction":
+            kw = {k.arg: _norm(net, k.value) for k in st.value.keywords}
+            calls.append((_norm(net, st.targets[0]), kw.get("stoichiometry", ""), kw.get("kf", ""), kw.get("kr", "")))
+    ret = [_norm(net, st) for st in sp.body if isinstance(st, ast.Return)]
+    L.append("/-- `Reaction.split`: (name, stoichiometry, kf, kr) of the two constructed reactions, and the return -/")
+    L.append("def pySplit : List (String × String × String × String) := %s" %
+             lean_list(["(%s, %s, %s, %s)" % tuple(lean_str(x) for x in c) for c in _need(calls, "Reaction.split constructor calls", 2)]))
+    L.append("def pySplitReturn : List String := %s" % strs(ret))
+    for fname in ("ssto", "psto", "dsto"):
+        fn = net.func(fname, "Reaction")
+        L.append("def py_%s : String := %s" % (fname, lean_str(_norm(net, fn.body[-1]))))
+    L.append("")
+
+    # ---- value_processing.get_value_in_env : order of the look-ups
+    vp = PySrc(repo, "src/strengths/value_processing.py")
+    gv = vp.func("get_value_in_env")
+    seq = []
+    for st in _stmts(gv):
+        if isinstance(st, ast.If):
+            seq.append("if:" + _norm(vp, st.test))
+        elif isinstance(st, ast.Return):
+            seq.append(_norm(vp, st))
+    L.append("/-- `get_value_in_env`: tests and returns in source order -/")
+    L.append("def pyGetValueInEnv : List String := %s\n" % strs(_need(seq, "get_value_in_env")))
+
+    # ---- rdsystem.py : make_dxdtf, apply_reaction, get_chemostat
+    rds = PySrc(repo, "src/strengths/rdsystem.py")
+    mk = rds.func("make_dxdtf", "RDSystem")
+    L.append("/-- `RDSystem.make_dxdtf`: simple statements in source order (outer function and the returned closure) -/")
+    L.append("def pyDxdtfStmts : List String := %s" % strs(_need(_stmt_texts(rds, mk, lambda t: True), "make_dxdtf statements")))
+    L.append("def pyDxdtfLoops : List (String × String) := %s" % lean_list(
+        ["(%s, %s)" % (lean_str(_norm(rds, st.target)), lean_str(_norm(rds, st.iter))) for st in _stmts(mk) if isinstance(st, ast.For)]))
+    for dfn in [n for n in ast.walk(mk) if isinstance(n, ast.FunctionDef) and n is not mk]:
+        L.append("def pyDxdtfInner_%s : List String := %s" % (dfn.name, strs(_stmt_texts(rds, dfn, lambda t: True))))
+        L.append("def pyDxdtfInnerLoops_%s : List (String × String) := %s" % (dfn.name, lean_list(
+            ["(%s, %s)" % (lean_str(_norm(rds, st.target)), lean_str(_norm(rds, st.iter))) for st in _stmts(dfn) if isinstance(st, ast.For)])))
+    ar = rds.func("apply_reaction", "RDSystem")
+    loop = [st for st in _stmts(ar) if isinstance(st, ast.For)]
+    _need(loop, "apply_reaction loop", 1)
+    body = []
+    for st in _stmts(loop[0]):
+        body.append(("if:" + _norm(rds, st.test)) if isinstance(st, ast.If) else _norm(rds, st))
+    L.append("/-- `RDSystem.apply_reaction`: the applying loop (iterator, then statements / tests in order) and the `dx` definition -/")
+    L.append("def pyApplyLoop : List String := %s" % strs([_norm(rds, loop[0].target) + " in " + _norm(rds, loop[0].iter)] + body))
+    L.append("def pyApplyDx : List String := %s" % strs(_need(_stmt_texts(rds, ar, lambda t: t.startswith("dx=") or t.startswith("r=")), "apply_reaction dx")))
+    gc = rds.func("get_chemostat", "RDSystem")
+    L.append("def pyGetChemostat : List String := %s" % strs(_stmt_texts(rds, gc, lambda t: True)))
+    sc = rds.func("set_chemostat", "RDSystem")
+    L.append("def pySetChemostat : List String := %s\n" % strs(_stmt_texts(rds, sc, lambda t: True)))
+
+    # ---- librdengine.py : marshalling subscripts and loop orders
+    lre = PySrc(repo, "src/strengths/librdengine.py")
+
+    def store_formula(fname, arr, names):
+        fn = lre.func(fname)
+        for st in _stmts(fn):
+            if isinstance(st, ast.Assign) and isinstance(st.targets[0], ast.Subscript) and _norm(lre, st.targets[0].value) == arr:
+                loops = [(_norm(lre, f.target), _norm(lre, f.iter)) for f in _stmts(fn) if isinstance(f, ast.For)]
+                return ExprTr(lre, names).tr(st.targets[0].slice), _norm(lre, st.value), loops
+        raise AnchorLost("librdengine.py:%s store into %s[...]" % (fname, arr))
+    nm = {"n_reactions": "nr", "n_env": "ne", "s": "s", "r": "r", "e": "e"}
+    f_sub, v_sub, l_sub = store_formula("build_substrate_stoechiometric_matrix", "sub", nm)
+    f_sto, v_sto, l_sto = store_formula("build_stoechiometric_difference_matrix", "sto", nm)
+    f_d, v_d, l_d = store_formula("build_diff_coef_environment_matrix", "D", nm)
+    L.append("/-- `build_*_matrix`: index written, value stored, loops (outer first) -/")
+    L.append("def pySubIndex (nr s r : Int) : Int := %s" % f_sub)
+    L.append("def pyStoIndex (nr s r : Int) : Int := %s" % f_sto)
+    L.append("def pyDIndex (ne s e : Int) : Int := %s" % f_d)
+    L.append("def pySubValue : String := %s" % lean_str(v_sub))
+    L.append("def pyStoValue : String := %s" % lean_str(v_sto))
+    L.append("def pyDValue : String := %s" % lean_str(v_d))
+
+    def loops_lean(l):
+        return lean_list(["(%s, %s)" % (lean_str(a), lean_str(b)) for a, b in l])
+    L.append("def pySubLoops : List (String × String) := %s" % loops_lean(l_sub))
+    L.append("def pyStoLoops : List (String × String) := %s" % loops_lean(l_sto))
+    L.append("def pyDLoops : List (String × String) := %s" % loops_lean(l_d))
+    bk = lre.func("build_reaction_rate_constant_matrix")
+    l_k = [(_norm(lre, f.target), _norm(lre, f.iter)) for f in _stmts(bk) if isinstance(f, ast.For)]
+    app = _stmt_texts(lre, bk, lambda t: t.startswith("km.append") or t.startswith("km=") or t.startswith("returnkm"))
+    L.append("/-- `build_reaction_rate_constant_matrix`: loops (outer first; the list is appended to, so position = e*nr + r) -/")
+    L.append("def pyKLoops : List (String × String) := %s" % loops_lean(_need(l_k, "build_reaction_rate_constant_matrix loops", 2)))
+    L.append("def pyKStmts : List String := %s" % strs(_need(app, "build_reaction_rate_constant_matrix statements")))
+    su = lre.func("setup", "LibRDEngine")
+    L.append("/-- `LibRDEngine.setup`: the reaction splitting loop and the engine units system -/")
+    L.append("def pySetupStmts : List String := %s" % strs(_need(_stmt_texts(
+        lre, su, lambda t: t.startswith("rf,rr=") or t.startswith("reactions") or t.startswith("units_system") or t.startswith("self._units_system")),
+        "LibRDEngine.setup statements")))
+    for fname in ("_setup_grid", "_setup_graph"):
+        fn = lre.func(fname, "LibRDEngine")
+        call = None
+        for n in ast.walk(fn):
+            if isinstance(n, ast.Call) and _norm(lre, n.func).startswith("self._lib.engineexport_initialize"):
+                call = n
+        if call is None:
+            raise AnchorLost("librdengine.py:%s engineexport_initialize call" % fname)
+        L.append("/-- `%s`: the arguments handed to the native initialiser, in order -/" % fname)
+        L.append("def pyArgs%s : List String := %s" % (fname, strs([_norm(lre, a) for a in call.args])))
+    for fname in ("_get_data", "_get_t_sample"):
+        fn = lre.func(fname, "LibRDEngine")
+        ret = [st for st in fn.body if isinstance(st, ast.Return)]
+        L.append("def pyRet%s : String := %s" % (fname, lean_str(_norm(lre, ret[-1]) if ret else "")))
     L.append("\nend Strengths.Gen")
     return "\n".join(L) + "\n"
